@@ -2,7 +2,9 @@
    sender and the receiver machine over perfect FIFO queues. *)
 From Coq Require Import ZArith Lia.
 From Trzsz Require Import Base.Bytes Gen.Consts Model.Path Model.Fs Model.Names Model.Escape Model.Base64
-  Model.Wire Model.Transfer Proofs.PathFs Proofs.Names Proofs.Wire Proofs.TransferFs Proofs.TransferProgress.
+  Model.Wire Model.Transfer Proofs.PathFs Proofs.Names Proofs.Wire Proofs.TransferArchive Proofs.TransferResume
+  Proofs.TransferFs Proofs.TransferProgress.
+From Trzsz Require Model.Resume Model.Archive Proofs.Resume.
 
 (* The model's reading of the source is pinned to what the translator found.  isCompressFixed is
    INTERPRETED from the regenerated decision list (so changed thresholds are followed, not refused);
@@ -10,7 +12,10 @@ From Trzsz Require Import Base.Bytes Gen.Consts Model.Path Model.Fs Model.Names 
    operations, which the machines hard-code, is pinned call by call. *)
 Lemma transfer_rules_wf :
   forallb (fun r => match r with (k, _, _, cv) => (k <? 3) && (cv <? 3) end) Consts.tr_compress_rules = true /\
-  (snd Consts.tr_compress_default <? 3) = true /\ Consts.tr_resume_skipped_for_empty_target = true.
+  (snd Consts.tr_compress_default <? 3) = true /\ Consts.tr_resume_skipped_for_empty_target = true /\
+  (* the two ends of the resume exchange read one protocol switch for the unechoed SIZE, and it is not below
+     the version at which the exchange exists *)
+  (Consts.tr_proto_json_names <=? Consts.tr_proto_resume_nosize) = true.
 Proof. repeat split; reflexivity. Qed.
 
 Lemma transfer_calls_src_ok :
@@ -60,12 +65,17 @@ Variable zcomp : list (list byte) -> list (list byte).
 Variable zdecomp : list byte -> option (list byte).
 Variable zl : list byte -> list byte.
 Variable unzl : list byte -> option (list byte).
+Variable hx : list byte -> Resume.digest.
+Variable ahdr : src -> Z -> list byte.
+Variable aparse : list byte -> option (src * Z).
 
 Notation msg := (tr_msg digest).
-Notation sender := (tr_sender digest H deq zcomp zl).
-Notation receiver := (tr_receiver digest H deq zdecomp unzl).
-Notation stepc := (tr_step digest H deq zcomp zdecomp zl unzl).
-Notation runf := (tr_run_from digest H deq zcomp zdecomp zl unzl).
+Notation sender := (tr_sender digest H deq zcomp zl hx ahdr).
+Notation receiver := (tr_receiver digest H deq zdecomp unzl hx aparse).
+Notation stepc := (tr_step digest H deq zcomp zdecomp zl unzl hx ahdr aparse).
+Notation runf := (tr_run_from digest H deq zcomp zdecomp zl unzl hx ahdr aparse).
+Notation spec_entry := (tr_spec_entry hx ahdr aparse).
+Notation spec := (tr_spec hx ahdr aparse).
 Notation s_next := (tr_s_next digest).
 Notation r_next := (tr_r_next digest).
 Notation frames := (tr_frames digest zcomp).
@@ -124,7 +134,7 @@ Definition name_reply (c : tr_cfg) (ln : name) (tsize : N) : msg :=
 
 Lemma snd_name c e sc rest names nm sz :
   sender c (mkSS SpName ((e, sc) :: rest) names) (name_reply c nm sz) =
-  tr_s_named digest c (mkSS SpName ((e, sc) :: rest) names) e rest nm (if tr_json_names c then sz else 0).
+  tr_s_named digest hx ahdr c (mkSS SpName ((e, sc) :: rest) names) e sc rest nm (if tr_json_names c then sz else 0).
 Proof. unfold tr_sender, name_reply. cbn [ss_phase ss_todo ss_names]. destruct (tr_json_names c); reflexivity. Qed.
 
 Lemma snd_size c e sc rest names :
@@ -184,18 +194,18 @@ Lemma rcv_name c d left st names sch p :
   receiver c d (mkRS RpName left st names sch) (TrName digest p) = tr_r_name digest c d (mkRS RpName left st names sch) p.
 Proof. reflexivity. Qed.
 
-Lemma rcv_size c d left st names sch p n :
-  receiver c d (mkRS (RpSize p) left st names sch) (TrSize digest n) = tr_r_size digest c (mkRS (RpSize p) left st names sch) p n.
+Lemma rcv_size c d left st names sch op p n :
+  receiver c d (mkRSx (RpSize p) left st names sch op) (TrSize digest n) = tr_r_size digest c (mkRSx (RpSize p) left st names sch op) p n.
 Proof. reflexivity. Qed.
 
-Lemma rcv_comp c d left st names sch p size b :
-  receiver c d (mkRS (RpComp p size) left st names sch) (TrComp digest b) =
-  (mkRS (RpData p size b [] (sc_steps (tr_cur_sched (mkRS (RpComp p size) left st names sch)))) left st names sch, []).
+Lemma rcv_comp c d left st names sch op p size b :
+  receiver c d (mkRSx (RpComp p size) left st names sch op) (TrComp digest b) =
+  (mkRSx (RpData p size b [] (sc_steps (tr_cur_sched (mkRSx (RpComp p size) left st names sch op)))) left st names sch op, []).
 Proof. reflexivity. Qed.
 
-Lemma rcv_frame c d left st names sch p size cp acc steps f :
-  receiver c d (mkRS (RpData p size cp acc steps) left st names sch) (TrData digest f) =
-  tr_r_frame digest zdecomp c (mkRS (RpData p size cp acc steps) left st names sch) p size cp acc steps f.
+Lemma rcv_frame c d left st names sch op p size cp acc steps f :
+  receiver c d (mkRSx (RpData p size cp acc steps) left st names sch op) (TrData digest f) =
+  tr_r_frame digest zdecomp aparse c (mkRSx (RpData p size cp acc steps) left st names sch op) p size cp acc steps f.
 Proof. reflexivity. Qed.
 
 Lemma rcv_v1 c d left st names sch p size w pl :
@@ -203,9 +213,9 @@ Lemma rcv_v1 c d left st names sch p size w pl :
   tr_r_v1 digest unzl c (mkRS (RpV1 p size w) left st names sch) p size w pl.
 Proof. reflexivity. Qed.
 
-Lemma rcv_md5 c d left st names sch p w dg :
-  receiver c d (mkRS (RpMd5 p w) left st names sch) (TrMd5 digest dg) =
-  tr_r_md5 digest H deq c d (mkRS (RpMd5 p w) left st names sch) p w dg.
+Lemma rcv_md5 c d left st names sch op p w dg :
+  receiver c d (mkRSx (RpMd5 p w) left st names sch op) (TrMd5 digest dg) =
+  tr_r_md5 digest H deq aparse c d (mkRSx (RpMd5 p w) left st names sch op) p w dg.
 Proof. reflexivity. Qed.
 
 Lemma rcv_exit c d left st names sch ns :
@@ -246,11 +256,11 @@ Lemma nonempty_cons {A} (f : list A) : nonempty f = true -> exists x r, f = x ::
 Proof. destruct f; [discriminate | eauto]. Qed.
 
 (* the receiver takes a run of non-empty frames *)
-Lemma recv_frames c d p size cp left st names sch : forall fs s acc steps q r2s log,
+Lemma recv_frames c d p size cp left st names sch op : forall fs s acc steps q r2s log,
   all_nonempty fs = true ->
   runf (length fs) c d
-    (mkConf digest s (mkRS (RpData p size cp acc steps) left st names sch) (map (TrData digest) fs ++ q) r2s log) =
-  mkConf digest s (mkRS (RpData p size cp (acc ++ fs) (snd (acks_go fs steps))) left st names sch) q
+    (mkConf digest s (mkRSx (RpData p size cp acc steps) left st names sch op) (map (TrData digest) fs ++ q) r2s log) =
+  mkConf digest s (mkRSx (RpData p size cp (acc ++ fs) (snd (acks_go fs steps))) left st names sch op) q
     (r2s ++ fst (acks_go fs steps)) (log ++ tag_out false (fst (acks_go fs steps))).
 Proof.
   induction fs as [|f r IH]; intros s acc steps q r2s log Hne.
@@ -298,64 +308,73 @@ Proof.
 Qed.
 
 (* ---------- what the specification says about one entry ---------- *)
-Lemma spec_entry_inv c d e st ln st' : tr_spec_entry c d e st = Some (ln, st') ->
-  (te_isdir e && negb (tr_json c)) = false /\
-  exists st1, tr_create c d (tr_payload c e) [] st = (NOk ln, st1) /\
-    if te_isdir e then st' = st1
-    else (tr_json_names c && (0 <? tr_target_size d ln (tr_payload c e) st1)) = false /\
-         exists ln2, tr_create c d (tr_payload c e) (te_data e) st = (NOk ln2, st').
-Proof.
-  unfold tr_spec_entry. destruct (te_isdir e && negb (tr_json c)) eqn:E0; [discriminate|].
-  destruct (tr_create c d (tr_payload c e) [] st) as [[l1|] st1] eqn:E1; [|discriminate].
-  destruct (te_isdir e).
-  - intro Hx; inversion Hx; subst. split; [reflexivity|]. exists st'. split; reflexivity.
-  - destruct (tr_json_names c && (0 <? tr_target_size d l1 (tr_payload c e) st1)) eqn:E2; [discriminate|].
-    destruct (tr_create c d (tr_payload c e) (te_data e) st) as [[l2|] st2] eqn:E3; [|discriminate].
-    intro Hx; inversion Hx; subst. split; [reflexivity|]. exists st1. split; [reflexivity|].
-    split; [exact E2|]. exists l2. reflexivity.
-Qed.
-
 Lemma payload_isdir c e : (te_isdir e && negb (tr_json c)) = false -> tr_p_isdir (tr_payload c e) = te_isdir e.
 Proof.
   unfold tr_payload. destruct (tr_json c); cbn [tr_p_isdir s_isdir]; [reflexivity|].
   destruct (te_isdir e); [discriminate | reflexivity].
 Qed.
 
-Lemma payload_archive c e : tr_p_archive (tr_payload c e) = false.
+Lemma payload_archive c e : tr_p_archive (tr_payload c e) = tr_json c && tr_has_subs e.
 Proof. unfold tr_payload. destruct (tr_json c); reflexivity. Qed.
+
+Lemma payload_aid c e : tr_json c = true -> tr_p_aid (tr_payload c e) = te_id e.
+Proof. unfold tr_payload. intros ->. reflexivity. Qed.
+
+(* an entry without SubFiles: a directory, a file that is resumed, or a file that is written whole *)
+Lemma spec_plain_inv c d e sc st ln st' : tr_has_subs e = false -> spec_entry c d e sc st = Some (ln, st') ->
+  (te_isdir e && negb (tr_json c)) = false /\
+  exists st1, tr_create c d (tr_payload c e) [] st = (NOk ln, st1) /\
+    if te_isdir e then st' = st1
+    else if tr_json_names c && (0 <? tr_target_size d ln (tr_payload c e) st1)
+         then exists o, tr_resume_run hx c e sc (tr_old_content st1 (tr_leaf d ln (tr_payload c e))) = Resume.Done o /\
+                st' = tr_set_file st1 (tr_leaf d ln (tr_payload c e)) (Resume.o_final o)
+         else exists ln2, tr_create c d (tr_payload c e) (te_data e) st = (NOk ln2, st').
+Proof.
+  intro Hsub. unfold tr_spec_entry. rewrite Hsub. destruct (te_isdir e && negb (tr_json c)) eqn:E0; [discriminate|].
+  destruct (tr_create c d (tr_payload c e) [] st) as [[l1|] st1] eqn:E1; [|discriminate].
+  destruct (te_isdir e).
+  - intro Hx; inversion Hx; subst. split; [reflexivity|]. exists st'. split; reflexivity.
+  - destruct (tr_json_names c && (0 <? tr_target_size d l1 (tr_payload c e) st1)) eqn:E2.
+    + destruct (tr_resume_run hx c e sc _) as [o| | | |] eqn:Er; try discriminate.
+      intro Hx; inversion Hx; subst. split; [reflexivity|]. exists st1. split; [reflexivity|]. rewrite E2. exists o. split; [exact Er | reflexivity].
+    + destruct (tr_create c d (tr_payload c e) (te_data e) st) as [[l2|] st2] eqn:E3; [|discriminate].
+      intro Hx; inversion Hx; subst. split; [reflexivity|]. exists st1. split; [reflexivity|]. rewrite E2. exists l2. reflexivity.
+Qed.
 
 (* ---------- a directory entry: NAME, reply ---------- *)
 Definition dir_log (c : tr_cfg) (e : tr_entry) (ln : name) : list (bool * msg) :=
   [(true, TrName digest (tr_payload c e)); (false, name_reply c ln 0)].
 
 Lemma r_name_dir c d e k st names sc sch ln st' :
-  te_isdir e = true -> tr_spec_entry c d e st = Some (ln, st') ->
+  tr_has_subs e = false -> te_isdir e = true -> (te_isdir e && negb (tr_json c)) = false ->
+  tr_create c d (tr_payload c e) [] st = (NOk ln, st') ->
   tr_r_name digest c d (mkRS RpName (S k) st names (sc :: sch)) (tr_payload c e) =
   (fst (r_next c k st' (tr_add_name names ln) sch), name_reply c ln 0 :: snd (r_next c k st' (tr_add_name names ln) sch)).
 Proof.
-  intros Hd Hs. destruct (spec_entry_inv _ _ _ _ _ _ Hs) as (E0 & st1 & E1 & E2). rewrite Hd in E2. subst st1.
-  unfold tr_r_name. cbn [rs_st rs_names rs_phase rs_left rs_sched]. rewrite E1, payload_archive, (payload_isdir _ _ E0), Hd.
-  unfold tr_r_done. cbn [rs_left rs_names rs_sched pred tl].
+  intros Hsub Hd E0 E1.
+  unfold tr_r_name. cbn [rs_st rs_names rs_phase rs_left rs_sched rs_open]. rewrite E1, payload_archive, Hsub, andb_false_r, (payload_isdir _ _ E0), Hd.
+  cbn [orb]. unfold tr_r_done. cbn [rs_left rs_names rs_sched pred tl].
   destruct (r_next c k st' (tr_add_name names ln) sch) as [rn ro]. reflexivity.
 Qed.
 
 Lemma entry_dir c d e sc ess st names L ln st' :
-  te_isdir e = true -> tr_spec_entry c d e st = Some (ln, st') ->
+  tr_has_subs e = false -> te_isdir e = true -> (te_isdir e && negb (tr_json c)) = false ->
+  tr_create c d (tr_payload c e) [] st = (NOk ln, st') ->
   runf 2 c d (between c ((e, sc) :: ess) st names L) =
   between c ess st' (tr_add_name names ln) (L ++ dir_log c e ln).
 Proof.
-  intros Hd Hs. rewrite between_cons.
-  rewrite (run_S _ _ _ _ _ (step_recv' _ _ _ _ _ _ _ _)), rcv_name, (r_name_dir c d e (length ess) st names sc (map snd ess) ln st' Hd Hs).
+  intros Hsub Hd E0 E1. rewrite between_cons.
+  rewrite (run_S _ _ _ _ _ (step_recv' _ _ _ _ _ _ _ _)), rcv_name, (r_name_dir c d e (length ess) st names sc (map snd ess) ln st' Hsub Hd E0 E1).
   cbn [fst snd app].
   rewrite (run_one _ _ _ _ (step_send' _ _ _ _ _ _ _)), snd_name.
-  unfold tr_s_named. rewrite Hd. cbn [ss_names].
+  unfold tr_s_named. rewrite Hsub, andb_false_r, Hd. cbn [ss_names].
   unfold between, dir_log.
   destruct (r_next c (length ess) st' (tr_add_name names ln) (map snd ess)) as [rn ro].
   destruct (s_next c ess (tr_add_name names ln)) as [sn so]. cbn [fst snd].
   unfold tr_tag_out; cbn [map app]; repeat rewrite <- app_assoc; reflexivity.
 Qed.
 
-(* ---------- a file entry, pipelined exchange (protocol >= 2) ---------- *)
+(* ---------- the data of a file, pipelined exchange (protocol >= 2): SIZE .. MD5 ---------- *)
 Hypothesis z_roundtrip : forall cs, zdecomp (concat (zcomp cs)) = Some (concat cs).
 Hypothesis z_bytes : forall cs, bytes_ok (concat (zcomp cs)) = true.
 Hypothesis zl_roundtrip : forall d, unzl (zl d) = Some d.
@@ -363,40 +382,28 @@ Hypothesis zl_bytes : forall d, bytes_ok (zl d) = true.
 
 Notation table_ok := tr_table_ok.
 
-Lemma r_name_file c d e k st names sc sch ln st' :
-  te_isdir e = false -> tr_spec_entry c d e st = Some (ln, st') ->
-  tr_r_name digest c d (mkRS RpName (S k) st names (sc :: sch)) (tr_payload c e) =
-  (mkRS (RpSize (tr_payload c e)) (S k) st (tr_add_name names ln) (sc :: sch), [name_reply c ln 0]).
-Proof.
-  intros Hd Hs. destruct (spec_entry_inv _ _ _ _ _ _ Hs) as (E0 & st1 & E1 & E2). rewrite Hd in E2.
-  destruct E2 as (E2 & ln2 & E3).
-  unfold tr_r_name. cbn [rs_st rs_names rs_phase rs_left rs_sched]. rewrite E1, payload_archive, (payload_isdir _ _ E0), Hd, E2.
-  unfold tr_r_phase, name_reply. cbn [rs_st rs_names rs_phase rs_left rs_sched].
-  destruct (tr_json_names c) eqn:Ej; [|reflexivity].
-  cbn [andb] in E2. apply N.ltb_ge in E2. apply N.le_0_r in E2. rewrite E2. reflexivity.
-Qed.
-
 Lemma size_file e : te_isdir e = false -> te_size e = tr_blen (te_data e).
 Proof. unfold te_size. intros ->. reflexivity. Qed.
 
 (* the phase the receiver is in after the SIZE echo *)
-Definition after_size (c : tr_cfg) (e : tr_entry) (sc : tr_sched) : tr_rphase :=
+Definition after_size (c : tr_cfg) (p : tr_npayload) (e : tr_entry) (sc : tr_sched) : tr_rphase :=
   match tr_is_compress_fixed c (te_size e) with
-  | (true, cp) => RpData (tr_payload c e) (te_size e) cp [] (sc_steps sc)
-  | (false, _) => RpComp (tr_payload c e) (te_size e)
+  | (true, cp) => RpData p (te_size e) cp [] (sc_steps sc)
+  | (false, _) => RpComp p (te_size e)
   end.
 
-Lemma r_size_v2 c e left st names sc sch : tr_pipeline c = true ->
-  tr_r_size digest c (mkRS (RpSize (tr_payload c e)) left st names (sc :: sch)) (tr_payload c e) (te_size e) =
-  (mkRS (after_size c e sc) left st names (sc :: sch), [TrSuccInt digest (te_size e)]).
+Lemma r_size_v2 c p e left st names sc sch op : tr_pipeline c = true ->
+  tr_rest_mismatch (mkRSx (RpSize p) left st names (sc :: sch) op) (te_size e) = false ->
+  tr_r_size digest c (mkRSx (RpSize p) left st names (sc :: sch) op) p (te_size e) =
+  (mkRSx (after_size c p e sc) left st names (sc :: sch) op, [TrSuccInt digest (te_size e)]).
 Proof.
-  intro Hp. unfold tr_r_size, after_size. rewrite Hp. destruct (tr_is_compress_fixed c (te_size e)) as [[|] cp]; reflexivity.
+  intros Hp Hm. unfold tr_r_size, after_size. rewrite Hm, Hp. destruct (tr_is_compress_fixed c (te_size e)) as [[|] cp]; reflexivity.
 Qed.
 
-Lemma recv_comp c d e sc s left st names sch q r2s log :
+Lemma recv_comp c d p e sc s left st names sch op q r2s log :
   runf (length (snd (compress c e sc))) c d
-    (mkConf digest s (mkRS (after_size c e sc) left st names (sc :: sch)) (snd (compress c e sc) ++ q) r2s log) =
-  mkConf digest s (mkRS (RpData (tr_payload c e) (te_size e) (fst (compress c e sc)) [] (sc_steps sc)) left st names (sc :: sch))
+    (mkConf digest s (mkRSx (after_size c p e sc) left st names (sc :: sch) op) (snd (compress c e sc) ++ q) r2s log) =
+  mkConf digest s (mkRSx (RpData p (te_size e) (fst (compress c e sc)) [] (sc_steps sc)) left st names (sc :: sch) op)
     q r2s log.
 Proof.
   unfold after_size, tr_compress. destruct (tr_is_compress_fixed c (te_size e)) as [[|] cp]; cbn [fst snd length app]; [reflexivity|].
@@ -412,63 +419,52 @@ Proof. unfold finish_ack. apply snd_ack. Qed.
 
 Definition prefinal_of (e : tr_entry) (sc : tr_sched) : list N := filter (fun s => s <? te_size e) (sc_prefinal sc).
 
-Definition file_log_v2 (c : tr_cfg) (e : tr_entry) (sc : tr_sched) (ln : name) : list (bool * msg) :=
-  let fs := frames c e sc in
-  [(true, TrName digest (tr_payload c e)); (false, name_reply c ln 0);
-   (true, TrSize digest (te_size e)); (false, TrSuccInt digest (te_size e))]
-  ++ tag_out true (snd (compress c e sc) ++ map (TrData digest) fs ++ [TrData digest []])
-  ++ tag_out false (fst (acks_go fs (sc_steps sc)) ++ [finish_ack fs (sc_steps sc)]
-                    ++ map (TrSuccInt digest) (prefinal_of e sc) ++ [TrSuccInt digest (te_size e)])
-  ++ [(true, TrMd5 digest (H (te_data e))); (false, TrSuccDigest digest (H (te_data e)))].
-
-Lemma r_finish c e left st names sc sch : table_ok c -> bytes_ok (te_data e) = true -> te_isdir e = false ->
-  tr_r_frame digest zdecomp c
-    (mkRS (RpData (tr_payload c e) (te_size e) (fst (compress c e sc)) ([] ++ frames c e sc) (snd (acks_go (frames c e sc) (sc_steps sc))))
-       left st names (sc :: sch))
-    (tr_payload c e) (te_size e) (fst (compress c e sc)) ([] ++ frames c e sc) (snd (acks_go (frames c e sc) (sc_steps sc))) [] =
-  (mkRS (RpMd5 (tr_payload c e) (te_data e)) left st names (sc :: sch),
+(* [p] names the entry, [e] is the FILE whose data goes over the wire: the entry itself, the rest of it
+   (resume), or the archive stream.  If [p] is an archive, the writer accepts the stream. *)
+Lemma r_finish c p e left st names sc sch op : table_ok c -> bytes_ok (te_data e) = true -> te_isdir e = false ->
+  (tr_p_archive p = true -> exists t, tr_unarchive aparse (tr_p_aid p) sc (te_data e) = Some t) ->
+  tr_r_frame digest zdecomp aparse c
+    (mkRSx (RpData p (te_size e) (fst (compress c e sc)) ([] ++ frames c e sc) (snd (acks_go (frames c e sc) (sc_steps sc))))
+       left st names (sc :: sch) op)
+    p (te_size e) (fst (compress c e sc)) ([] ++ frames c e sc) (snd (acks_go (frames c e sc) (sc_steps sc))) [] =
+  (mkRSx (RpMd5 p (te_data e)) left st names (sc :: sch) op,
    [finish_ack (frames c e sc) (sc_steps sc)] ++ map (TrSuccInt digest) (prefinal_of e sc) ++ [TrSuccInt digest (te_size e)]).
 Proof.
-  intros Ht Hb Hd. unfold tr_r_frame. cbn [app].
+  intros Ht Hb Hd Ha. unfold tr_r_frame. cbn [app].
   unfold tr_frames at 1.
   rewrite (L1_roundtrip zcomp zdecomp z_roundtrip z_bytes (tc_binary c) (fst (compress c e sc)) (tc_table c) (te_chunks e)
              (sc_sizes sc) (sc_dflt sc) [] tr_rdflt Ht Hb (Forall_nil _) (le_n 1)).
   assert (Es : tr_blen (concat (te_chunks e)) =? te_size e = true) by (rewrite (size_file e Hd); apply N.eqb_refl).
-  rewrite Es. reflexivity.
+  rewrite Es. fold (te_data e). unfold tr_cur_sched. cbn [rs_sched].
+  destruct (tr_p_archive p) eqn:Ea; [|reflexivity]. destruct (Ha eq_refl) as (t & ->). reflexivity.
 Qed.
 
-Lemma r_md5_ok c d e k st names sc sch ln st' :
-  te_isdir e = false -> tr_spec_entry c d e st = Some (ln, st') ->
-  tr_r_md5 digest H deq c d (mkRS (RpMd5 (tr_payload c e) (te_data e)) (S k) st names (sc :: sch)) (tr_payload c e) (te_data e)
-    (H (te_data e)) =
-  (fst (r_next c k st' names sch), TrSuccDigest digest (H (te_data e)) :: snd (r_next c k st' names sch)).
-Proof.
-  intros Hd Hs. destruct (spec_entry_inv _ _ _ _ _ _ Hs) as (E0 & st1 & E1 & E2). rewrite Hd in E2.
-  destruct E2 as (E2 & ln2 & E3).
-  unfold tr_r_md5. rewrite deq_refl. cbn [rs_st]. rewrite E3. unfold tr_r_done. cbn [rs_left rs_names rs_sched pred tl].
-  destruct (r_next c k st' names sch) as [rn ro]. reflexivity.
-Qed.
+(* SIZE, echo, [COMP], frames, finish flag, acks, final acks; the sender has emitted MD5 *)
+Definition tail_log (c : tr_cfg) (e : tr_entry) (sc : tr_sched) : list (bool * msg) :=
+  let fs := frames c e sc in
+  [(false, TrSuccInt digest (te_size e))]
+  ++ tag_out true (snd (compress c e sc) ++ map (TrData digest) fs ++ [TrData digest []])
+  ++ tag_out false (fst (acks_go fs (sc_steps sc)) ++ [finish_ack fs (sc_steps sc)]
+                    ++ map (TrSuccInt digest) (prefinal_of e sc) ++ [TrSuccInt digest (te_size e)])
+  ++ [(true, TrMd5 digest (H (te_data e)))].
 
-Definition steps_v2 (c : tr_cfg) (e : tr_entry) (sc : tr_sched) : nat :=
-  1 + (1 + (1 + (1 + (length (snd (compress c e sc)) + (length (frames c e sc) + (1 + (length (frames c e sc) +
-  (1 + (length (prefinal_of e sc) + (1 + (1 + 1))))))))))).
+Definition tail_steps (c : tr_cfg) (e : tr_entry) (sc : tr_sched) : nat :=
+  1 + (1 + (length (snd (compress c e sc)) + (length (frames c e sc) + (1 + (length (frames c e sc) +
+  (1 + (length (prefinal_of e sc) + 1))))))).
 
-Lemma entry_file_v2 c d e sc ess st names L ln st' :
-  tr_pipeline c = true -> table_ok c -> bytes_ok (te_data e) = true ->
-  te_isdir e = false -> tr_spec_entry c d e st = Some (ln, st') ->
-  runf (steps_v2 c e sc) c d (between c ((e, sc) :: ess) st names L) =
-  between c ess st' (tr_add_name names ln) (L ++ file_log_v2 c e sc ln).
+Lemma file_tail_v2 c d p e sc rest snames left st rnames sch op L :
+  tr_pipeline c = true -> table_ok c -> bytes_ok (te_data e) = true -> te_isdir e = false ->
+  (tr_p_archive p = true -> exists t, tr_unarchive aparse (tr_p_aid p) sc (te_data e) = Some t) ->
+  tr_rest_mismatch (mkRSx (RpSize p) left st rnames (sc :: sch) op) (te_size e) = false ->
+  runf (tail_steps c e sc) c d
+    (mkConf digest (mkSS SpSize ((e, sc) :: rest) snames) (mkRSx (RpSize p) left st rnames (sc :: sch) op)
+       [TrSize digest (te_size e)] [] L) =
+  mkConf digest (mkSS SpMd5 ((e, sc) :: rest) snames) (mkRSx (RpMd5 p (te_data e)) left st rnames (sc :: sch) op)
+    [TrMd5 digest (H (te_data e))] [] (L ++ tail_log c e sc).
 Proof.
-  intros Hp Ht Hb Hd Hs. rewrite between_cons. unfold steps_v2.
-  (* NAME -> reply *)
-  rewrite run_add, (run_one _ _ _ _ (step_recv' _ _ _ _ _ _ _ _)), rcv_name,
-    (r_name_file c d e (length ess) st names sc (map snd ess) ln st' Hd Hs). cbn [fst snd app].
-  (* reply -> SIZE *)
-  rewrite run_add, (run_one _ _ _ _ (step_send' _ _ _ _ _ _ _)), snd_name.
-  replace (if tr_json_names c then 0 else 0) with 0 by (destruct (tr_json_names c); reflexivity).
-  unfold tr_s_named. rewrite Hd, N.ltb_irrefl. cbn [ss_names ss_todo fst snd].
+  intros Hp Ht Hb Hd Ha Hm. unfold tail_steps.
   (* SIZE -> echo *)
-  rewrite run_add, (run_one _ _ _ _ (step_recv' _ _ _ _ _ _ _ _)), rcv_size, (r_size_v2 c e _ _ _ sc _ Hp). cbn [fst snd app].
+  rewrite run_add, (run_one _ _ _ _ (step_recv' _ _ _ _ _ _ _ _)), rcv_size, (r_size_v2 c p e _ _ _ sc _ _ Hp Hm). cbn [fst snd app].
   (* echo -> [COMP] frames finish *)
   rewrite run_add, (run_one _ _ _ _ (step_send' _ _ _ _ _ _ _)), snd_size.
   unfold tr_s_data. rewrite Hp. cbn [ss_names ss_todo fst snd].
@@ -477,27 +473,82 @@ Proof.
   (* frames *)
   rewrite run_add, recv_frames by apply frames_nonempty.
   (* finish flag *)
-  rewrite run_add, (run_one _ _ _ _ (step_recv' _ _ _ _ _ _ _ _)), rcv_frame, (r_finish c e _ _ _ sc _ Ht Hb Hd). cbn [fst snd].
+  rewrite run_add, (run_one _ _ _ _ (step_recv' _ _ _ _ _ _ _ _)), rcv_frame, (r_finish c p e _ _ _ sc _ _ Ht Hb Hd Ha). cbn [fst snd].
   (* the acks *)
   rewrite <- !app_assoc. cbn [app].
   rewrite run_add, send_acks by discriminate.
   rewrite run_add, (run_one _ _ _ _ (step_send' _ _ _ _ _ _ _)).
   rewrite !snd_finish_ack. cbn [fst snd].
   rewrite run_add, send_prefinal by apply filter_Forall.
-  rewrite run_add, (run_one _ _ _ _ (step_send' _ _ _ _ _ _ _)), snd_final. cbn [fst snd].
-  (* MD5 -> digest *)
-  rewrite run_add, (run_one _ _ _ _ (step_recv' _ _ _ _ _ _ _ _)), rcv_md5,
-    (r_md5_ok c d e (length ess) st (tr_add_name names ln) sc (map snd ess) ln st' Hd Hs). cbn [fst snd app].
-  rewrite (run_one _ _ _ _ (step_send' _ _ _ _ _ _ _)), snd_md5.
-  unfold between, file_log_v2.
-  destruct (r_next c (length ess) st' (tr_add_name names ln) (map snd ess)) as [rn ro].
-  destruct (s_next c ess (tr_add_name names ln)) as [sn so]. cbn [fst snd].
-  f_equal.
-  rewrite !tag_out_app.
-  norm_log.
-  reflexivity.
+  rewrite (run_one _ _ _ _ (step_send' _ _ _ _ _ _ _)), snd_final. cbn [fst snd].
+  unfold tail_log. f_equal. rewrite !tag_out_app. norm_log. reflexivity.
 Qed.
 
+(* MD5 -> digest reply -> the next entry *)
+Lemma md5_steps c d p e sc rest k st names sch op L st' :
+  tr_complete aparse c d (mkRSx (RpMd5 p (te_data e)) (S k) st names (sc :: sch) op) p (te_data e) = Some st' ->
+  length rest = k -> map snd rest = sch ->
+  runf 2 c d
+    (mkConf digest (mkSS SpMd5 ((e, sc) :: rest) names) (mkRSx (RpMd5 p (te_data e)) (S k) st names (sc :: sch) op)
+       [TrMd5 digest (H (te_data e))] [] L) =
+  between c rest st' names (L ++ [(false, TrSuccDigest digest (H (te_data e)))]).
+Proof.
+  intros Hc <- <-.
+  rewrite (run_S _ _ _ _ _ (step_recv' _ _ _ _ _ _ _ _)), rcv_md5. unfold tr_r_md5. rewrite deq_refl, Hc.
+  unfold tr_r_done. cbn [rs_left rs_names rs_sched pred tl].
+  destruct (r_next c (length rest) st' names (map snd rest)) as [rn ro] eqn:Ern. cbn [fst snd app].
+  rewrite (run_one _ _ _ _ (step_send' _ _ _ _ _ _ _)), snd_md5.
+  unfold between. rewrite Ern.
+  destruct (s_next c rest names) as [sn so]. cbn [fst snd].
+  f_equal. norm_log. reflexivity.
+Qed.
+
+Lemma tail_steps_eq c e sc : tr_pipeline c = true -> tr_tail_steps digest zcomp c e sc = (tail_steps c e sc + 2)%nat.
+Proof. intro Hp. unfold tr_tail_steps, tail_steps, prefinal_of. rewrite Hp. lia. Qed.
+
+(* ---------- a file entry written whole, pipelined exchange ---------- *)
+Lemma r_name_file c d e k st names sc sch ln st1 :
+  tr_has_subs e = false -> te_isdir e = false -> (te_isdir e && negb (tr_json c)) = false ->
+  tr_create c d (tr_payload c e) [] st = (NOk ln, st1) ->
+  tr_json_names c && (0 <? tr_target_size d ln (tr_payload c e) st1) = false ->
+  tr_r_name digest c d (mkRS RpName (S k) st names (sc :: sch)) (tr_payload c e) =
+  (mkRS (RpSize (tr_payload c e)) (S k) st (tr_add_name names ln) (sc :: sch), [name_reply c ln 0]).
+Proof.
+  intros Hsub Hd E0 E1 E2.
+  unfold tr_r_name. cbn [rs_st rs_names rs_phase rs_left rs_sched rs_open]. rewrite E1, payload_archive, Hsub, andb_false_r, (payload_isdir _ _ E0), Hd.
+  cbn [orb]. rewrite E2.
+  unfold tr_r_phase, name_reply. cbn [rs_st rs_names rs_phase rs_left rs_sched rs_open].
+  destruct (tr_json_names c) eqn:Ej; [|reflexivity].
+  cbn [andb] in E2. apply N.ltb_ge in E2. apply N.le_0_r in E2. rewrite E2. reflexivity.
+Qed.
+
+Definition file_log_v2 (c : tr_cfg) (e : tr_entry) (sc : tr_sched) (ln : name) : list (bool * msg) :=
+  [(true, TrName digest (tr_payload c e)); (false, name_reply c ln 0); (true, TrSize digest (te_size e))]
+  ++ tail_log c e sc ++ [(false, TrSuccDigest digest (H (te_data e)))].
+
+Lemma entry_file_v2 c d e sc ess st names L ln st1 ln2 st' :
+  tr_pipeline c = true -> table_ok c -> bytes_ok (te_data e) = true ->
+  tr_has_subs e = false -> te_isdir e = false -> (te_isdir e && negb (tr_json c)) = false ->
+  tr_create c d (tr_payload c e) [] st = (NOk ln, st1) ->
+  tr_json_names c && (0 <? tr_target_size d ln (tr_payload c e) st1) = false ->
+  tr_create c d (tr_payload c e) (te_data e) st = (NOk ln2, st') ->
+  runf (2 + (tail_steps c e sc + 2)) c d (between c ((e, sc) :: ess) st names L) =
+  between c ess st' (tr_add_name names ln) (L ++ file_log_v2 c e sc ln).
+Proof.
+  intros Hp Ht Hb Hsub Hd E0 E1 E2 E3. rewrite between_cons.
+  (* NAME -> reply *)
+  rewrite run_add. cbn [tr_run_from].
+  rewrite (step_recv' _ _ _ _ _ _ _ _), rcv_name, (r_name_file c d e (length ess) st names sc (map snd ess) ln st1 Hsub Hd E0 E1 E2). cbn [fst snd app].
+  (* reply -> SIZE *)
+  rewrite (step_send' _ _ _ _ _ _ _), snd_name.
+  replace (if tr_json_names c then 0 else 0) with 0 by (destruct (tr_json_names c); reflexivity).
+  unfold tr_s_named. rewrite Hsub, andb_false_r, Hd, N.ltb_irrefl. cbn [ss_names ss_todo fst snd].
+  rewrite run_add, (file_tail_v2 c d (tr_payload c e) e sc ess _ _ _ _ _ None _ Hp Ht Hb Hd); [| |reflexivity].
+  2:{ rewrite payload_archive, Hsub, andb_false_r. discriminate. }
+  rewrite (md5_steps c d (tr_payload c e) e sc ess (length ess) st _ (map snd ess) None _ st' ); [|  | reflexivity | reflexivity].
+  - unfold file_log_v2. f_equal. norm_log. reflexivity.
+  - unfold tr_complete. cbn [rs_open rs_st]. rewrite payload_archive, Hsub, andb_false_r, E3. reflexivity.
+Qed.
 (* ---------- a file entry, legacy exchange (protocol 1): stop and wait ---------- *)
 Fixpoint dbl (n : nat) : nat := match n with O => O | S m => S (S (dbl m)) end.
 Lemma dbl_spec n : dbl n = (2 * n)%nat.
@@ -575,23 +626,29 @@ Lemma r_size_v1 c e left st names sch : tr_pipeline c = false ->
   tr_r_size digest c (mkRS (RpSize (tr_payload c e)) left st names sch) (tr_payload c e) (te_size e) =
   (mkRS (if 0 <? te_size e then RpV1 (tr_payload c e) (te_size e) [] else RpMd5 (tr_payload c e) []) left st names sch,
    [TrSuccInt digest (te_size e)]).
-Proof. intro Hp. unfold tr_r_size. rewrite Hp. destruct (0 <? te_size e); reflexivity. Qed.
+Proof. intro Hp. unfold tr_r_size, tr_rest_mismatch. cbn [rs_open]. rewrite Hp. destruct (0 <? te_size e); reflexivity. Qed.
 
 Definition steps_v1 (e : tr_entry) (sc : tr_sched) : nat :=
-  1 + (1 + (1 + (1 + (dbl (length (tr_v1_chunks e sc)) + (1 + 1))))).
+  1 + (1 + (1 + (1 + (dbl (length (tr_v1_chunks e sc)) + 2)))).
 
-Lemma entry_file_v1 c d e sc ess st names L ln st' :
+Lemma entry_file_v1 c d e sc ess st names L ln st1 ln2 st' :
   tr_pipeline c = false -> table_ok c -> bytes_ok (te_data e) = true ->
-  te_isdir e = false -> tr_spec_entry c d e st = Some (ln, st') ->
+  tr_has_subs e = false -> te_isdir e = false -> (te_isdir e && negb (tr_json c)) = false ->
+  tr_create c d (tr_payload c e) [] st = (NOk ln, st1) ->
+  tr_json_names c && (0 <? tr_target_size d ln (tr_payload c e) st1) = false ->
+  tr_create c d (tr_payload c e) (te_data e) st = (NOk ln2, st') ->
   runf (steps_v1 e sc) c d (between c ((e, sc) :: ess) st names L) =
   between c ess st' (tr_add_name names ln) (L ++ file_log_v1 c e sc ln).
 Proof.
-  intros Hp Ht Hb Hd Hs. rewrite between_cons. unfold steps_v1.
+  intros Hp Ht Hb Hsub Hd E0 E1 E2 E3. rewrite between_cons. unfold steps_v1.
+  assert (Hcomp : tr_complete aparse c d (mkRS (RpMd5 (tr_payload c e) (te_data e)) (S (length ess)) st (tr_add_name names ln) (sc :: map snd ess))
+                    (tr_payload c e) (te_data e) = Some st').
+  { unfold tr_complete. cbn [rs_open rs_st]. rewrite payload_archive, Hsub, andb_false_r, E3. reflexivity. }
   rewrite run_add, (run_one _ _ _ _ (step_recv' _ _ _ _ _ _ _ _)), rcv_name,
-    (r_name_file c d e (length ess) st names sc (map snd ess) ln st' Hd Hs). cbn [fst snd app].
+    (r_name_file c d e (length ess) st names sc (map snd ess) ln st1 Hsub Hd E0 E1 E2). cbn [fst snd app].
   rewrite run_add, (run_one _ _ _ _ (step_send' _ _ _ _ _ _ _)), snd_name.
   replace (if tr_json_names c then 0 else 0) with 0 by (destruct (tr_json_names c); reflexivity).
-  unfold tr_s_named. rewrite Hd, N.ltb_irrefl. cbn [ss_names ss_todo fst snd].
+  unfold tr_s_named. rewrite Hsub, andb_false_r, Hd, N.ltb_irrefl. cbn [ss_names ss_todo fst snd].
   rewrite run_add, (run_one _ _ _ _ (step_recv' _ _ _ _ _ _ _ _)), rcv_size, (r_size_v1 c e _ _ _ _ Hp). cbn [fst snd app].
   rewrite run_add, (run_one _ _ _ _ (step_send' _ _ _ _ _ _ _)), snd_size.
   unfold tr_s_data. rewrite Hp. unfold file_log_v1, v1_data_log.
@@ -604,88 +661,509 @@ Proof.
     assert (Hz : 0 <? te_size e = false) by (rewrite (size_file e Hd), <- Hcat; reflexivity).
     rewrite Hz. unfold tr_s_md5. cbn [fst snd ss_todo ss_names].
     rewrite Hcat.
-    rewrite (run_S _ _ _ _ _ (step_recv' _ _ _ _ _ _ _ _)), rcv_md5,
-      (r_md5_ok c d e (length ess) st (tr_add_name names ln) sc (map snd ess) ln st' Hd Hs). cbn [fst snd app].
-    rewrite (run_one _ _ _ _ (step_send' _ _ _ _ _ _ _)), snd_md5.
-    unfold between.
-    destruct (r_next c (length ess) st' (tr_add_name names ln) (map snd ess)) as [rn ro].
-    destruct (s_next c ess (tr_add_name names ln)) as [sn so]. cbn [fst snd].
+    rewrite (md5_steps c d (tr_payload c e) e sc ess (length ess) st _ (map snd ess) None _ st' Hcomp eq_refl eq_refl).
     f_equal. norm_log. reflexivity.
   - assert (Hz : 0 <? te_size e = true).
     { apply N.ltb_lt. rewrite (size_file e Hd), <- Hcat. cbn [all_nonempty forallb] in Hne.
       apply andb_true_iff in Hne as [Hn _]. destruct ch; [discriminate|]. unfold tr_blen. cbn [concat app length]. lia. }
     rewrite Hz. cbn [fst snd ss_todo ss_names].
     rewrite run_add, (v1_loop c d e sc ess (tr_add_name names ln) _ _ _ _ _ Ht Hd chs ch [] _ Hb Hne Hcat).
-    rewrite run_add, (run_one _ _ _ _ (step_recv' _ _ _ _ _ _ _ _)), rcv_md5,
-      (r_md5_ok c d e (length ess) st (tr_add_name names ln) sc (map snd ess) ln st' Hd Hs). cbn [fst snd app].
-    rewrite (run_one _ _ _ _ (step_send' _ _ _ _ _ _ _)), snd_md5.
-    unfold between.
-    destruct (r_next c (length ess) st' (tr_add_name names ln) (map snd ess)) as [rn ro].
-    destruct (s_next c ess (tr_add_name names ln)) as [sn so]. cbn [fst snd].
+    rewrite (md5_steps c d (tr_payload c e) e sc ess (length ess) st _ (map snd ess) None _ st' Hcomp eq_refl eq_refl).
     f_equal. norm_log. reflexivity.
 Qed.
 
-(* ---------- all entries ---------- *)
-Definition entry_log (c : tr_cfg) (es : tr_entry * tr_sched) (ln : name) : list (bool * msg) :=
-  if te_isdir (fst es) then dir_log c (fst es) ln
-  else if tr_pipeline c then file_log_v2 c (fst es) (snd es) ln
-  else file_log_v1 c (fst es) (snd es) ln.
+(* ---------- a file entry resumed (protocol >= 3, a non-empty file in the way) ---------- *)
+Notation B := tr_hash_B.
+Notation hmsg_of := (tr_hmsg digest).
+Notation hack_of := (tr_hack digest).
 
-Fixpoint all_log (c : tr_cfg) (ess : list (tr_entry * tr_sched)) (per : list name) : list (bool * msg) :=
+Lemma rcv_hsize c d left st names sch op p leaf old n :
+  receiver c d (mkRSx (RpHSize p leaf old) left st names sch op) (TrSize digest n) =
+  (mkRSx (RpHash p leaf old n Resume.r_init) left st names sch op, []).
+Proof. reflexivity. Qed.
+
+Lemma rcv_hash c d left st names sch op p leaf old sz r s h :
+  receiver c d (mkRSx (RpHash p leaf old sz r) left st names sch op) (TrHash digest s h) =
+  tr_r_hash digest hx (mkRSx (RpHash p leaf old sz r) left st names sch op) p leaf old sz r s h.
+Proof. reflexivity. Qed.
+
+Lemma rcv_over c d left st names sch op p leaf old sz r :
+  receiver c d (mkRSx (RpHash p leaf old sz r) left st names sch op) (TrHashOver digest) =
+  tr_r_over digest (mkRSx (RpHash p leaf old sz r) left st names sch op) p leaf old sz r.
+Proof. reflexivity. Qed.
+
+Lemma skipn_app_len {A} (a b : list A) : skipn (length a) (a ++ b) = b.
+Proof. induction a as [|x a IH]; [reflexivity | exact IH]. Qed.
+
+Lemma skipn_len_nil {A} (a : list A) : skipn (length a) a = [].
+Proof. induction a as [|x a IH]; [reflexivity | exact IH]. Qed.
+
+(* the receiver takes a run of HASH records: one step of Resume.recv_hashes each, the answers it appends *)
+Lemma recv_hash_loop c d p leaf old sz left st names sch op : forall hs s r r' q r2s log,
+  Resume.recv_hashes B hx old hs r = Resume.RBlocked r' ->
+  runf (length hs) c d
+    (mkConf digest s (mkRSx (RpHash p leaf old sz r) left st names sch op) (map hmsg_of hs ++ q) r2s log) =
+  mkConf digest s (mkRSx (RpHash p leaf old sz r') left st names sch op) q
+    (r2s ++ map hack_of (skipn (length (Resume.r_acks r)) (Resume.r_acks r')))
+    (log ++ tag_out false (map hack_of (skipn (length (Resume.r_acks r)) (Resume.r_acks r')))).
+Proof.
+  induction hs as [|m hs IH]; intros s r r' q r2s log Hr.
+  - cbn in Hr. inversion Hr; subst r'. rewrite skipn_len_nil. cbn. rewrite !app_nil_r. reflexivity.
+  - destruct m as [hs0 h|]; [|cbn in Hr; discriminate].
+    change (Resume.Hash hs0 h :: hs) with ([Resume.Hash hs0 h] ++ hs) in Hr. rewrite recv_hashes_app in Hr.
+    destruct (Resume.recv_hashes B hx old [Resume.Hash hs0 h] r) as [rx|r1| | |] eqn:E1; try discriminate.
+    cbn [length map app tr_hmsg].
+    rewrite (run_S _ _ _ _ _ (step_recv' _ _ _ _ _ _ _ _)), rcv_hash. unfold tr_r_hash. rewrite E1.
+    cbn [fst snd tr_r_phase rs_left rs_st rs_names rs_sched rs_open].
+    rewrite (IH s r1 r' q _ _ Hr).
+    destruct (recv_acks_grow B hx old [Resume.Hash hs0 h] r r1 (or_introl E1)) as (e1 & He1).
+    destruct (recv_acks_grow B hx old hs r1 r' (or_introl Hr)) as (e2 & He2).
+    rewrite He2, He1, <- app_assoc, !skipn_app_len.
+    rewrite <- (app_assoc (Resume.r_acks r)), skipn_app_len, map_app, tag_out_app. norm_app. reflexivity.
+Qed.
+
+
+(* the sender takes the answers, as Resume.recv_acks does: on an honest receiver's answers to the
+   announced steps it consumes them all, and has the verdict exactly when they contain it *)
+Lemma snd_hack c e sc rest names size mstep step m :
+  sender c (mkSS (SpHash size mstep) ((e, sc) :: rest) names) (TrSuccHack digest step m) =
+  tr_s_hack digest (mkSS (SpHash size mstep) ((e, sc) :: rest) names) size mstep step m.
+Proof. reflexivity. Qed.
+
+Definition after_hacks (e : tr_entry) (sc : tr_sched) (rest : list (tr_entry * tr_sched)) (names : list name)
+    (r : tr_rstate) (size : nat) (verdict : bool) (m : nat) (q : list msg) (log : list (bool * msg)) : conf :=
+  if verdict then
+    mkConf digest (mkSS SpSize ((tr_rem_entry e (Z.of_nat m), sc) :: rest) names) r
+      [TrSize digest (te_size (tr_rem_entry e (Z.of_nat m)))] q
+      (log ++ [(true, TrSize digest (te_size (tr_rem_entry e (Z.of_nat m))))])
+  else mkConf digest (mkSS (SpHash (Z.of_nat size) (Z.of_nat m)) ((e, sc) :: rest) names) r [] q log.
+
+Lemma send_hacks c d e sc rest names r src old size : forall l cur q log,
+  Proofs.Resume.incr cur l -> Forall (fun s => s <= size)%nat l ->
+  runf (length (Proofs.Resume.acks_of hx src old l)) c d
+    (mkConf digest (mkSS (SpHash (Z.of_nat size) (Z.of_nat cur)) ((e, sc) :: rest) names) r []
+       (map hack_of (Proofs.Resume.acks_of hx src old l) ++ q) log) =
+  after_hacks e sc rest names r size (Proofs.Resume.verdict hx src old size l)
+    (last (Proofs.Resume.take_good hx src old l) cur) q log.
+Proof.
+  induction l as [|s l IH]; intros cur q log Hin Hall; [reflexivity|].
+  cbn [Proofs.Resume.incr] in Hin. destruct Hin as [Hcs Hin]. inversion Hall as [|? ? Hs Hall']; subst.
+  cbn [Proofs.Resume.acks_of Proofs.Resume.verdict Proofs.Resume.take_good]. destruct (Proofs.Resume.good hx src old s) eqn:Hg.
+  - cbn [length map app tr_hack Resume.a_step Resume.a_match].
+    unfold tr_hack at 1. cbn [Resume.a_step Resume.a_match].
+    rewrite (run_S _ _ _ _ _ (step_send' _ _ _ _ _ _ _)), snd_hack. unfold tr_s_hack. cbn [ss_todo negb ss_names].
+    rewrite Proofs.Resume.last_cons_default.
+    destruct (Z.eqb_spec (Z.of_nat s) (Z.of_nat size)) as [He|Hne].
+    + assert (s = size) by lia. subst s. rewrite Nat.eqb_refl. cbn [orb].
+      destruct l as [|s2 l]; [|cbn [Proofs.Resume.incr] in Hin; inversion Hall'; subst; lia].
+      cbn [Proofs.Resume.acks_of length map app tr_run_from Proofs.Resume.take_good last fst snd].
+      unfold after_hacks, tr_s_size. cbn [fst snd]. unfold tr_tag_out. cbn [map]. reflexivity.
+    + destruct (Nat.eqb_spec s size); [lia|]. cbn [orb].
+      destruct (Z.ltb_spec (Z.of_nat size) (Z.of_nat s)); [lia|]. cbn [fst snd].
+      unfold tr_tag_out. cbn [map]. rewrite app_nil_r. apply IH; assumption.
+  - cbn [length map app last]. unfold tr_hack at 1. cbn [Resume.a_step Resume.a_match].
+    rewrite (run_one _ _ _ _ (step_send' _ _ _ _ _ _ _)), snd_hack. unfold tr_s_hack. cbn [ss_todo negb ss_names fst snd].
+    unfold after_hacks, tr_s_size. cbn [fst snd]. unfold tr_tag_out. cbn [map]. reflexivity.
+Qed.
+
+Lemma bytes_ok_skipn n : forall l, bytes_ok l = true -> bytes_ok (skipn n l) = true.
+Proof.
+  induction n as [|n IH]; intros l Hl; [exact Hl|]. destruct l as [|x l]; [reflexivity|].
+  cbn [skipn]. apply IH. cbn [bytes_ok forallb] in Hl. apply andb_true_iff in Hl. tauto.
+Qed.
+
+Definition resume_log (c : tr_cfg) (e : tr_entry) (sc : tr_sched) (ln : name) (tsize : N) (o : Resume.outcome) : list (bool * msg) :=
+  let f := tr_rem_entry e (Resume.o_msend o) in
+  [(true, TrName digest (tr_payload c e)); (false, name_reply c ln tsize)]
+  ++ tag_out true (tr_resume_pre digest c e ++ map hmsg_of (Resume.o_hashes o))
+  ++ tag_out false (map hack_of (Resume.o_acks o))
+  ++ [(true, TrSize digest (te_size f))]
+  ++ tail_log c f sc ++ [(false, TrSuccDigest digest (H (te_data f)))].
+
+Definition resume_steps (c : tr_cfg) (e : tr_entry) (sc : tr_sched) (o : Resume.outcome) : nat :=
+  1 + (1 + (length (tr_resume_pre digest c e) + (length (Resume.o_hashes o) + (length (Resume.o_acks o)
+  + (tail_steps c (tr_rem_entry e (Resume.o_msend o)) sc + 2))))).
+
+(* what the receiver found when it opened the file *)
+Lemma target_size_pos d ln p st1 : (0 <? tr_target_size d ln p st1) = true ->
+  tr_old_content st1 (tr_leaf d ln p) <> [] /\ tr_target_size d ln p st1 = tr_blen (tr_old_content st1 (tr_leaf d ln p)).
+Proof.
+  unfold tr_target_size, tr_old_content. destruct (lookup (st_fs st1) (tr_leaf d ln p)) as [[old|]|]; try discriminate.
+  intro Hp. split; [|reflexivity]. destruct old; [discriminate Hp | discriminate].
+Qed.
+
+Lemma pipeline_of_json_names c : tr_json_names c = true -> tr_pipeline c = true.
+Proof.
+  unfold tr_json_names, tr_pipeline. intro Hj. apply N.leb_le in Hj. destruct proto_order_src_ok as [H1 _]. apply N.leb_le in H1.
+  apply N.leb_le. lia.
+Qed.
+
+Lemma json_of_json_names c : tr_json_names c = true -> tr_json c = true.
+Proof. unfold tr_json. intros ->. reflexivity. Qed.
+
+Lemma payload_size c e : tr_json c = true -> tr_p_size (tr_payload c e) = te_size e.
+Proof. unfold tr_payload. intros ->. reflexivity. Qed.
+
+Lemma snd_name_target c e sc rest names nm sz : tr_json_names c = true ->
+  sender c (mkSS SpName ((e, sc) :: rest) names) (TrSuccTarget digest nm sz) =
+  tr_s_named digest hx ahdr c (mkSS SpName ((e, sc) :: rest) names) e sc rest nm sz.
+Proof. intro Hj. unfold tr_sender. cbn [ss_phase ss_todo ss_names]. rewrite Hj. reflexivity. Qed.
+
+Lemma entry_resume c d e sc ess st names L ln st1 o :
+  table_ok c -> bytes_ok (te_data e) = true -> tr_json_names c = true ->
+  tr_has_subs e = false -> te_isdir e = false -> (te_isdir e && negb (tr_json c)) = false ->
+  tr_create c d (tr_payload c e) [] st = (NOk ln, st1) ->
+  (0 <? tr_target_size d ln (tr_payload c e) st1) = true ->
+  tr_resume_run hx c e sc (tr_old_content st1 (tr_leaf d ln (tr_payload c e))) = Resume.Done o ->
+  runf (resume_steps c e sc o) c d (between c ((e, sc) :: ess) st names L) =
+  between c ess (tr_set_file st1 (tr_leaf d ln (tr_payload c e)) (Resume.o_final o)) (tr_add_name names ln)
+    (L ++ resume_log c e sc ln (tr_target_size d ln (tr_payload c e) st1) o).
+Proof.
+  intros Ht Hb Hj Hsub Hd E0 E1 Hts Hrun.
+  pose proof (pipeline_of_json_names c Hj) as Hp.
+  set (leaf := tr_leaf d ln (tr_payload c e)) in *.
+  destruct (target_size_pos d ln (tr_payload c e) st1 Hts) as [Hold Etsz]. fold leaf in Hold, Etsz.
+  set (old := tr_old_content st1 leaf) in *. set (src := te_data e) in *.
+  (* the exchange, taken apart and in closed form *)
+  destruct (resume_run_inv hx c e sc old o Hj Hold Hrun) as (hs & rst & ms & Hsend & Hrecv & Hacks & Ho).
+  pose proof (resume_run_cases hx c e sc old Hj Hold) as Hcases. cbv zeta in Hcases. fold src in Hcases, Hsend, Ho.
+  set (size := Nat.min (length src) (length old)) in *. set (l := rs_steps sc src old) in *.
+  set (m := last (Proofs.Resume.take_good hx src old l) O) in *.
+  rewrite Hrun in Hcases.
+  destruct ((size =? 0)%nat || Proofs.Resume.verdict hx src old size l) eqn:Hv; [|discriminate].
+  assert (Hhs : hs = map (Proofs.Resume.mk hx src) l ++ [Resume.Over]).
+  { pose proof (send_hashes_steps hx sc src old) as Hx. cbv zeta in Hx. fold size l in Hx. rewrite Hsend in Hx. inversion Hx. reflexivity. }
+  injection Hcases as Ho2. rewrite Ho in Ho2.
+  assert (Ea : Resume.r_acks rst = Proofs.Resume.acks_of hx src old l) by (apply (f_equal Resume.o_acks) in Ho2; exact Ho2).
+  assert (Emr : Resume.r_mstep rst = Z.of_nat m) by (apply (f_equal Resume.o_mrecv) in Ho2; exact Ho2).
+  assert (Ems : ms = Z.of_nat m) by (apply (f_equal Resume.o_msend) in Ho2; exact Ho2).
+  clear Ho2.
+  destruct (rs_steps_props sc src old) as [Hincr Hall]. fold l size in Hincr, Hall.
+  (* the receiver's loop on the records *)
+  assert (Hloop : Resume.recv_hashes B hx old (map (Proofs.Resume.mk hx src) l) Resume.r_init = Resume.RBlocked rst).
+  { rewrite Hhs, recv_hashes_app in Hrecv.
+    destruct (Resume.recv_hashes B hx old (map (Proofs.Resume.mk hx src) l) Resume.r_init) as [rx|r1| | |] eqn:E; try discriminate.
+    - exfalso. apply (recv_hashes_no_over B hx old _ Resume.r_init rx) in E; [exact E|].
+      intros x Hx. apply in_map_iff in Hx as (y & <- & _). discriminate.
+    - cbn in Hrecv. inversion Hrecv. reflexivity. }
+  (* the quantities of the outcome *)
+  assert (Eoh : Resume.o_hashes o = map (Proofs.Resume.mk hx src) l ++ [Resume.Over]) by (rewrite Ho, <- Hhs; reflexivity).
+  assert (Eoa : Resume.o_acks o = Proofs.Resume.acks_of hx src old l) by (rewrite Ho; cbn [Resume.o_acks]; exact Ea).
+  assert (Eom : Resume.o_msend o = Z.of_nat m) by (rewrite Ho; cbn [Resume.o_msend]; exact Ems).
+  assert (Eof : Resume.o_final o =
+     Resume.f_data (Resume.f_write (Resume.f_truncate (Resume.f_seek (Resume.mkFile old (Resume.r_off rst)) (Z.to_nat (Resume.r_mstep rst)))
+                                      (Z.to_nat (Resume.r_mstep rst))) (te_data (tr_rem_entry e (Z.of_nat m))))).
+  { rewrite Ho. cbn [Resume.o_final]. rewrite rem_entry_data, Ems. reflexivity. }
+  unfold resume_steps, resume_log. cbv zeta. rewrite Eoh, Eoa, Eom, Eof. clear Eoh Eoa Eom Eof.
+  set (f := tr_rem_entry e (Z.of_nat m)).
+  rewrite between_cons.
+  (* NAME -> reply with the size of what is there *)
+  rewrite run_add, (run_one _ _ _ _ (step_recv' _ _ _ _ _ _ _ _)), rcv_name.
+  unfold tr_r_name. cbn [rs_st rs_names rs_phase rs_left rs_sched rs_open].
+  rewrite E1, payload_archive, Hsub, andb_false_r, (payload_isdir _ _ E0), Hd.
+  cbn [orb]. rewrite Hj, Hts. cbn [andb fst snd app]. fold leaf. fold old.
+  unfold tr_r_phase. cbn [rs_st rs_names rs_phase rs_left rs_sched rs_open].
+  (* reply -> [SIZE] HASH records *)
+  rewrite run_add, (run_one _ _ _ _ (step_send' _ _ _ _ _ _ _)).
+  rewrite (snd_name_target c e sc ess names ln _ Hj).
+  unfold tr_s_named. rewrite Hsub, andb_false_r, Hd, Hts. cbn [ss_names].
+  unfold tr_s_resume. rewrite Etsz, (resume_size_min e old). fold src size. rewrite Hsend, Hhs.
+  rewrite map_app. cbn [map tr_hmsg].
+  assert (Hpre : forall (ph : tr_rphase) rl rn rs q r2s lg,
+    runf (length (tr_resume_pre digest c e)) c d
+      (mkConf digest rs
+         (mkRSx (if tc_proto c <? Consts.tr_proto_resume_nosize then RpHSize (tr_payload c e) leaf old else RpHash (tr_payload c e) leaf old (tr_p_size (tr_payload c e)) Resume.r_init) rl st rn (sc :: map snd ess) None)
+         (tr_resume_pre digest c e ++ q) r2s lg) =
+    mkConf digest rs (mkRSx (RpHash (tr_payload c e) leaf old (te_size e) Resume.r_init) rl st rn (sc :: map snd ess) None) q r2s lg).
+  { intros _ rl rn rs q r2s lg. unfold tr_resume_pre. destruct (tc_proto c <? Consts.tr_proto_resume_nosize); [|rewrite (payload_size c e (json_of_json_names c Hj)); reflexivity].
+    cbn [length app]. rewrite (run_one _ _ _ _ (step_recv' _ _ _ _ _ _ _ _)), rcv_hsize. cbn [fst snd]. rewrite !app_nil_r. reflexivity. }
+  assert (Hacksrst : Resume.r_acks rst = Proofs.Resume.acks_of hx src old l) by exact Ea.
+  assert (Hmrst : Z.to_nat (Resume.r_mstep rst) = m) by (rewrite Emr; lia).
+  (* what the receiver expects the rest to measure is what the sender announces *)
+  assert (Hrestm : (Z.of_N (te_size e) - Z.of_nat m)%Z = Z.of_N (te_size f)).
+  { destruct (Proofs.Resume.agreed_good B hx hash_B_pos src old l size Hall) as [_ Hle]. fold m in Hle.
+    unfold f, te_size. cbn [tr_rem_entry te_isdir]. rewrite Hd, rem_entry_data. fold src.
+    rewrite skipn_length, Nat2Z.id. unfold size in Hle. lia. }
+  destruct (Nat.eqb_spec size 0) as [Hz|Hnz].
+  - (* nothing to compare: Over and the SIZE of the whole file at once *)
+    assert (Hl : l = []).
+    { unfold l, rs_steps. fold size. rewrite Hz. reflexivity. }
+    assert (Hm0 : m = O) by (unfold m; rewrite Hl; reflexivity).
+    assert (Hf0 : tr_rem_entry e 0 = f) by (unfold f; rewrite Hm0; reflexivity).
+    rewrite Hl in Hloop |- *. cbn [map app length Proofs.Resume.acks_of].
+    cbn [fst snd]. rewrite <- !app_assoc.
+    rewrite run_add, (Hpre RpNum). cbn [app].
+    change (0 + (tail_steps c f sc + 2))%nat with (tail_steps c f sc + 2)%nat.
+    rewrite run_add, (run_one _ _ _ _ (step_recv' _ _ _ _ _ _ _ _)), rcv_over. unfold tr_r_over.
+    cbn [fst snd rs_left rs_st rs_names rs_sched]. cbn in Hloop. inversion Hloop as [Hrst]. rewrite <- Hrst in *.
+    rewrite app_nil_r, Hf0.
+    rewrite run_add, (file_tail_v2 c d (tr_payload c e) f sc ess _ _ _ _ _ _ _ Hp Ht); [| apply (eq_trans (f_equal bytes_ok (rem_entry_data e _))), bytes_ok_skipn, Hb | reflexivity| |].
+    2:{ rewrite payload_archive, Hsub, andb_false_r. discriminate. }
+    2:{ unfold tr_rest_mismatch. cbn [rs_open]. rewrite ?Hrst0, Emr, Hrestm, Z.eqb_refl. cbn [negb]. rewrite !andb_false_r. reflexivity. }
+    erewrite (md5_steps c d (tr_payload c e) f sc ess (length ess) st _ (map snd ess)); [| | reflexivity | reflexivity].
+    + unfold name_reply. rewrite Hj. f_equal. rewrite !tag_out_app. norm_log. reflexivity.
+    + unfold tr_complete. cbn [rs_open rs_st]. rewrite E1. reflexivity.
+  - (* the records, the answers, the verdict *)
+    cbn [fst snd]. rewrite <- !app_assoc.
+    rewrite run_add, (Hpre RpNum).
+    rewrite app_length. cbn [length]. rewrite map_length.
+    replace (length l + 1 + (length (Proofs.Resume.acks_of hx src old l) + (tail_steps c f sc + 2)))%nat
+      with (length (map (Proofs.Resume.mk hx src) l) + (1 + (length (Proofs.Resume.acks_of hx src old l) + (tail_steps c f sc + 2))))%nat
+      by (rewrite map_length; lia).
+    rewrite run_add, (recv_hash_loop c d (tr_payload c e) leaf old _ _ _ _ _ _ _ _ _ rst _ _ _ Hloop).
+    cbn [Resume.r_init Resume.r_acks length skipn]. rewrite Hacksrst. cbn [app].
+    rewrite run_add, (run_one _ _ _ _ (step_recv' _ _ _ _ _ _ _ _)), rcv_over. unfold tr_r_over.
+    cbn [fst snd rs_left rs_st rs_names rs_sched]. rewrite app_nil_r.
+    assert (Hverd : Proofs.Resume.verdict hx src old size l = true).
+    { apply orb_true_iff in Hv as [Hv|Hv]; [discriminate Hv | exact Hv]. }
+    rewrite run_add.
+    rewrite <- (app_nil_r (map hack_of (Proofs.Resume.acks_of hx src old l))) at 1.
+    change 0%Z with (Z.of_nat 0).
+    rewrite (send_hacks c d e sc ess _ _ src old size l 0 [] _ Hincr Hall), Hverd. unfold after_hacks. fold m f.
+    rewrite Hmrst.
+    rewrite run_add, (file_tail_v2 c d (tr_payload c e) f sc ess _ _ _ _ _ _ _ Hp Ht); [| apply (eq_trans (f_equal bytes_ok (rem_entry_data e _))), bytes_ok_skipn, Hb | reflexivity| |].
+    2:{ rewrite payload_archive, Hsub, andb_false_r. discriminate. }
+    2:{ unfold tr_rest_mismatch. cbn [rs_open]. rewrite ?Hrst0, Emr, Hrestm, Z.eqb_refl. cbn [negb]. rewrite !andb_false_r. reflexivity. }
+    erewrite (md5_steps c d (tr_payload c e) f sc ess (length ess) st _ (map snd ess)); [| | reflexivity | reflexivity].
+    + unfold name_reply. rewrite Hj. f_equal. rewrite !tag_out_app. norm_log. reflexivity.
+    + unfold tr_complete. cbn [rs_open rs_st]. rewrite E1. reflexivity.
+Qed.
+
+(* the hash sender stopped before the verdict: the ack reader waits for an answer that never comes;
+   neither side ever reports success *)
+Lemma entry_blocked c d e sc ess st names L ln st1 hs acks :
+  tr_json_names c = true ->
+  tr_has_subs e = false -> te_isdir e = false -> (te_isdir e && negb (tr_json c)) = false ->
+  tr_create c d (tr_payload c e) [] st = (NOk ln, st1) ->
+  (0 <? tr_target_size d ln (tr_payload c e) st1) = true ->
+  tr_resume_run hx c e sc (tr_old_content st1 (tr_leaf d ln (tr_payload c e))) = Resume.SenderBlocked hs acks ->
+  let cf := runf (1 + (1 + (length (tr_resume_pre digest c e) + (length hs + length acks)))) c d (between c ((e, sc) :: ess) st names L) in
+  stepc c d cf = None /\ tr_sender_ok digest cf = false /\ tr_receiver_ok digest cf = false.
+Proof.
+  intros Hj Hsub Hd E0 E1 Hts Hrun.
+  set (leaf := tr_leaf d ln (tr_payload c e)) in *.
+  destruct (target_size_pos d ln (tr_payload c e) st1 Hts) as [Hold Etsz]. fold leaf in Hold, Etsz.
+  set (old := tr_old_content st1 leaf) in *. set (src := te_data e) in *.
+  pose proof (resume_run_cases hx c e sc old Hj Hold) as Hcases. cbv zeta in Hcases. fold src in Hcases.
+  set (size := Nat.min (length src) (length old)) in *. set (l := rs_steps sc src old) in *.
+  rewrite Hrun in Hcases.
+  destruct ((size =? 0)%nat || Proofs.Resume.verdict hx src old size l) eqn:Hv; [discriminate|].
+  apply orb_false_iff in Hv as [Hnz Hverd]. apply Nat.eqb_neq in Hnz.
+  injection Hcases as Ehs Eacks. subst hs acks.
+  destruct (recv_honest_steps hx sc src old) as (rst & Hrecv & _ & Hacksrst). fold l in Hrecv, Hacksrst.
+  destruct (rs_steps_props sc src old) as [Hincr Hall]. fold l size in Hincr, Hall.
+  assert (Hloop : Resume.recv_hashes B hx old (map (Proofs.Resume.mk hx src) l) Resume.r_init = Resume.RBlocked rst).
+  { rewrite recv_hashes_app in Hrecv.
+    destruct (Resume.recv_hashes B hx old (map (Proofs.Resume.mk hx src) l) Resume.r_init) as [rx|r1| | |] eqn:E; try discriminate.
+    - exfalso. apply (recv_hashes_no_over B hx old _ Resume.r_init rx) in E; [exact E|].
+      intros x Hx. apply in_map_iff in Hx as (y & <- & _). discriminate.
+    - cbn in Hrecv. inversion Hrecv. reflexivity. }
+  pose proof (send_hashes_steps hx sc src old) as Hsend. cbv zeta in Hsend. fold size l in Hsend.
+  assert (Hfin : exists sz ms rr lg,
+    runf (1 + (1 + (length (tr_resume_pre digest c e) + (length (map (Proofs.Resume.mk hx src) l ++ [Resume.Over]) + length (Proofs.Resume.acks_of hx src old l))))) c d
+      (between c ((e, sc) :: ess) st names L) =
+    mkConf digest (mkSS (SpHash sz ms) ((e, sc) :: ess) (tr_add_name names ln))
+      (mkRSx (RpSize (tr_payload c e)) (S (length ess)) st (tr_add_name names ln) (sc :: map snd ess) rr) [] [] lg);
+  [|destruct Hfin as (sz & ms & rr & lg & Hfin); cbv zeta; rewrite Hfin; split; [reflexivity | split; reflexivity]].
+  do 4 eexists. rewrite between_cons.
+  rewrite run_add, (run_one _ _ _ _ (step_recv' _ _ _ _ _ _ _ _)), rcv_name.
+  unfold tr_r_name. cbn [rs_st rs_names rs_phase rs_left rs_sched rs_open].
+  rewrite E1, payload_archive, Hsub, andb_false_r, (payload_isdir _ _ E0), Hd.
+  cbn [orb]. rewrite Hj, Hts. cbn [andb fst snd app]. fold leaf. fold old.
+  unfold tr_r_phase. cbn [rs_st rs_names rs_phase rs_left rs_sched rs_open].
+  rewrite run_add, (run_one _ _ _ _ (step_send' _ _ _ _ _ _ _)).
+  rewrite (snd_name_target c e sc ess names ln _ Hj).
+  unfold tr_s_named. rewrite Hsub, andb_false_r, Hd, Hts. cbn [ss_names].
+  unfold tr_s_resume. rewrite Etsz, (resume_size_min e old). fold src size. rewrite Hsend.
+  destruct (Nat.eqb_spec size 0) as [Hz|_]; [contradiction|].
+  rewrite map_app. cbn [map tr_hmsg fst snd]. rewrite <- !app_assoc.
+  assert (Hpre : forall rl rn rs q r2s lg,
+    runf (length (tr_resume_pre digest c e)) c d
+      (mkConf digest rs
+         (mkRSx (if tc_proto c <? Consts.tr_proto_resume_nosize then RpHSize (tr_payload c e) leaf old else RpHash (tr_payload c e) leaf old (tr_p_size (tr_payload c e)) Resume.r_init) rl st rn (sc :: map snd ess) None)
+         (tr_resume_pre digest c e ++ q) r2s lg) =
+    mkConf digest rs (mkRSx (RpHash (tr_payload c e) leaf old (te_size e) Resume.r_init) rl st rn (sc :: map snd ess) None) q r2s lg).
+  { intros rl rn rs q r2s lg. unfold tr_resume_pre. destruct (tc_proto c <? Consts.tr_proto_resume_nosize); [|rewrite (payload_size c e (json_of_json_names c Hj)); reflexivity].
+    cbn [length app]. rewrite (run_one _ _ _ _ (step_recv' _ _ _ _ _ _ _ _)), rcv_hsize. cbn [fst snd]. rewrite !app_nil_r. reflexivity. }
+  rewrite run_add, Hpre.
+  rewrite app_length. cbn [length]. rewrite map_length.
+  replace (length l + 1 + length (Proofs.Resume.acks_of hx src old l))%nat
+    with (length (map (Proofs.Resume.mk hx src) l) + (1 + length (Proofs.Resume.acks_of hx src old l)))%nat
+    by (rewrite map_length; lia).
+  rewrite run_add, (recv_hash_loop c d (tr_payload c e) leaf old _ _ _ _ _ _ _ _ _ rst _ _ _ Hloop).
+  cbn [Resume.r_init Resume.r_acks length skipn]. rewrite Hacksrst. cbn [app].
+  rewrite run_add, (run_one _ _ _ _ (step_recv' _ _ _ _ _ _ _ _)), rcv_over. unfold tr_r_over.
+  cbn [fst snd rs_left rs_st rs_names rs_sched]. rewrite app_nil_r.
+  rewrite <- (app_nil_r (map hack_of (Proofs.Resume.acks_of hx src old l))) at 1.
+  change 0%Z with (Z.of_nat 0).
+  rewrite (send_hacks c d e sc ess _ _ src old size l 0 [] _ Hincr Hall), Hverd. unfold after_hacks.
+  reflexivity.
+Qed.
+
+(* ---------- an archive: NAME (archive:true), reply, then the entry stream as a file ---------- *)
+Definition arch_log (c : tr_cfg) (e : tr_entry) (sc : tr_sched) (ln : name) (f : tr_entry) : list (bool * msg) :=
+  [(true, TrName digest (tr_payload c e)); (false, name_reply c ln 0); (true, TrSize digest (te_size f))]
+  ++ tail_log c f sc ++ [(false, TrSuccDigest digest (H (te_data f)))].
+
+Lemma entry_arch c d e sc ess st names L ln st1 f t :
+  table_ok c -> tr_json_names c = true -> tr_has_subs e = true -> (te_isdir e && negb (tr_json c)) = false ->
+  tr_create c d (tr_payload c e) [] st = (NOk ln, st1) ->
+  tr_arch_entry ahdr e sc = Some f -> te_isdir f = false -> te_size f = Z.to_N (tr_arch_size ahdr e) ->
+  bytes_ok (te_data f) = true ->
+  tr_unarchive aparse (te_id e) sc (te_data f) = Some t ->
+  runf (2 + (tail_steps c f sc + 2)) c d (between c ((e, sc) :: ess) st names L) =
+  between c ess (tr_graft_st st1 (d ++ [ln]) t) (tr_add_name names ln) (L ++ arch_log c e sc ln f).
+Proof.
+  intros Ht Hj Hsub E0 E1 Ef Hdf Hsz Hb Hun.
+  pose proof (pipeline_of_json_names c Hj) as Hp. pose proof (json_of_json_names c Hj) as Hjs.
+  assert (Hpa : tr_p_archive (tr_payload c e) = true) by (rewrite payload_archive, Hjs, Hsub; reflexivity).
+  rewrite between_cons.
+  rewrite run_add. cbn [tr_run_from].
+  rewrite (step_recv' _ _ _ _ _ _ _ _), rcv_name.
+  unfold tr_r_name. cbn [rs_st rs_names rs_phase rs_left rs_sched rs_open]. rewrite E1, Hpa, orb_true_r, Hj.
+  unfold tr_r_phase. cbn [rs_st rs_names rs_phase rs_left rs_sched rs_open fst snd app].
+  rewrite (step_send' _ _ _ _ _ _ _), (snd_name_target c e sc ess names ln _ Hj).
+  unfold tr_s_named. rewrite Hj, Hsub, Ef. cbn [andb ss_names]. unfold tr_s_size. rewrite <- Hsz. cbn [fst snd].
+  rewrite run_add, (file_tail_v2 c d (tr_payload c e) f sc ess _ _ _ _ _ None _ Hp Ht Hb Hdf); [| |reflexivity].
+  2:{ intros _. rewrite (payload_aid c e Hjs). eauto. }
+  erewrite (md5_steps c d (tr_payload c e) f sc ess (length ess) st _ (map snd ess)); [| | reflexivity | reflexivity].
+  - unfold arch_log, name_reply. rewrite Hj. f_equal. norm_log. reflexivity.
+  - unfold tr_complete. cbn [rs_open rs_st]. rewrite Hpa, E1, (payload_aid c e Hjs). unfold tr_cur_sched. cbn [rs_sched].
+    rewrite Hun. reflexivity.
+Qed.
+
+(* ---------- all entries ---------- *)
+(* the messages of one item, by the way it is received (the specification decides which) *)
+Definition entry_log (c : tr_cfg) (d : path) (e : tr_entry) (sc : tr_sched) (st : state) (ln : name) : list (bool * msg) :=
+  match tr_create c d (tr_payload c e) [] st with
+  | (NErr, _) => []
+  | (NOk _, st1) =>
+    if tr_json_names c && tr_has_subs e then match tr_arch_entry ahdr e sc with Some f => arch_log c e sc ln f | None => [] end
+    else if te_isdir e then dir_log c e ln
+    else if tr_json_names c && (0 <? tr_target_size d ln (tr_payload c e) st1) then
+      match tr_resume_run hx c e sc (tr_old_content st1 (tr_leaf d ln (tr_payload c e))) with
+      | Resume.Done o => resume_log c e sc ln (tr_target_size d ln (tr_payload c e) st1) o
+      | _ => []
+      end
+    else if tr_pipeline c then file_log_v2 c e sc ln else file_log_v1 c e sc ln
+  end.
+
+Fixpoint all_log (c : tr_cfg) (d : path) (ess : list (tr_entry * tr_sched)) (st : state) (per : list name) : list (bool * msg) :=
   match ess, per with
-  | es :: ess', ln :: per' => entry_log c es ln ++ all_log c ess' per'
+  | (e, sc) :: ess', ln :: per' =>
+    entry_log c d e sc st ln ++
+    match spec_entry c d e sc st with Some (_, st') => all_log c d ess' st' per' | None => [] end
   | _, _ => []
   end.
 
-Lemma entry_steps_eq c e sc : tr_entry_steps digest zcomp c (e, sc) =
-  if te_isdir e then 2%nat else if tr_pipeline c then steps_v2 c e sc else steps_v1 e sc.
+Fixpoint esteps (c : tr_cfg) (d : path) (ess : list (tr_entry * tr_sched)) (st : state) : nat :=
+  match ess with
+  | [] => 0
+  | (e, sc) :: r =>
+    tr_entry_steps digest zcomp hx ahdr c d e sc st +
+    match spec_entry c d e sc st with Some (_, st') => esteps c d r st' | None => 0 end
+  end.
+
+(* what is assumed of one item: contents are bytes; SubFiles only in archive mode and well-formed;
+   their headers decode *)
+Definition item_ok (c : tr_cfg) (e : tr_entry) : Prop :=
+  Forall (fun m => bytes_ok (te_data m) = true) (tr_members e) /\
+  (te_subs e <> [] -> tr_archive_mode c = true /\ tr_subs_wf e) /\
+  (forall s, In s (te_subs e) -> tr_hdr_ok1 ahdr aparse s).
+
+Lemma has_subs_ne e : tr_has_subs e = true -> te_subs e <> [].
+Proof. unfold tr_has_subs. destruct (te_subs e); [discriminate | discriminate]. Qed.
+
+Lemma item_bytes c e : item_ok c e -> bytes_ok (te_data e) = true.
+Proof. intros (Hb & _). inversion Hb; assumption. Qed.
+
+(* the archive "file" of an item that is in order *)
+Lemma arch_item c e sc : item_ok c e -> tr_has_subs e = true ->
+  exists f t, tr_arch_entry ahdr e sc = Some f /\ te_isdir f = false /\ te_size f = Z.to_N (tr_arch_size ahdr e) /\
+    bytes_ok (te_data f) = true /\ tr_unarchive aparse (te_id e) sc (te_data f) = Some t.
 Proof.
-  unfold tr_entry_steps, steps_v2, steps_v1, prefinal_of. rewrite dbl_spec.
-  destruct (te_isdir e); [reflexivity|]. destruct (tr_pipeline c); lia.
+  intros (Hb & Hw & Hh) Hsub. destruct (Hw (has_subs_ne e Hsub)) as [_ Hwf].
+  destruct (arch_entry_ok ahdr e sc) as (f & Ef & Hdata & Hdf & _ & _ & _ & Hsz).
+  destruct (unarchive_ok ahdr aparse e sc Hwf Hh) as (t & Et & _).
+  exists f, t. split; [exact Ef|]. split; [exact Hdf|]. split; [exact Hsz|]. rewrite Hdata. split; [|exact Et].
+  apply (arch_stream_bytes ahdr aparse e Hwf Hh). inversion Hb; assumption.
 Qed.
 
-Definition entries_steps (c : tr_cfg) (ess : list (tr_entry * tr_sched)) : nat :=
-  fold_right (fun es n => tr_entry_steps digest zcomp c es + n)%nat 0%nat ess.
+Lemma entry_run c d e sc ess st names L ln st' : table_ok c -> item_ok c e ->
+  spec_entry c d e sc st = Some (ln, st') ->
+  runf (tr_entry_steps digest zcomp hx ahdr c d e sc st) c d (between c ((e, sc) :: ess) st names L) =
+  between c ess st' (tr_add_name names ln) (L ++ entry_log c d e sc st ln).
+Proof.
+  intros Ht Hok Hs. pose proof (item_bytes c e Hok) as Hb. destruct (tr_has_subs e) eqn:Hsub.
+  - (* an archive *)
+    destruct Hok as (Hb' & Hw & Hh). destruct (Hw (has_subs_ne e Hsub)) as [Ham _].
+    destruct (archive_mode_facts c Ham) as (_ & Hj & Hjs & Hp).
+    destruct (arch_item c e sc (conj Hb' (conj Hw Hh)) Hsub) as (f & t & Ef & Hdf & Hsz & Hbf & Et).
+    unfold tr_spec_entry in Hs. destruct (te_isdir e && negb (tr_json c)) eqn:E0; [discriminate|].
+    unfold tr_entry_steps, entry_log.
+    destruct (tr_create c d (tr_payload c e) [] st) as [[l1|] st1] eqn:E1; [|discriminate].
+    rewrite Hsub, Ef, Et in Hs. inversion Hs; subst l1 st'. clear Hs.
+    rewrite Hj, Hsub, Ef. cbn [andb]. rewrite (tail_steps_eq c f sc Hp).
+    apply (entry_arch c d e sc ess st names L ln st1 f t Ht Hj Hsub E0 E1 Ef Hdf Hsz Hbf Et).
+  - destruct (spec_plain_inv c d e sc st ln st' Hsub Hs) as (E0 & st1 & E1 & Hrest).
+    unfold tr_entry_steps, entry_log. rewrite E1, Hsub, andb_false_r.
+    destruct (te_isdir e) eqn:Hd.
+    + subst st'. assert (E0' : te_isdir e && negb (tr_json c) = false) by (rewrite Hd; exact E0).
+      apply (entry_dir c d e sc ess st names L ln st1 Hsub Hd E0' E1).
+    + assert (E0' : te_isdir e && negb (tr_json c) = false) by (rewrite Hd; exact E0). clear E0. rename E0' into E0.
+      destruct (tr_json_names c && (0 <? tr_target_size d ln (tr_payload c e) st1)) eqn:E2.
+      * destruct Hrest as (o & Er & ->). rewrite Er. apply andb_true_iff in E2 as [Hj Hts].
+        replace (2 + (length (tr_resume_pre digest c e) + length (Resume.o_hashes o) + length (Resume.o_acks o)
+                      + tr_tail_steps digest zcomp c (tr_rem_entry e (Resume.o_msend o)) sc))%nat
+          with (resume_steps c e sc o) by (unfold resume_steps; rewrite (tail_steps_eq c _ sc (pipeline_of_json_names c Hj)); lia).
+        apply (entry_resume c d e sc ess st names L ln st1 o Ht Hb Hj Hsub Hd E0 E1 Hts Er).
+      * destruct Hrest as (ln2 & E3). destruct (tr_pipeline c) eqn:Hp.
+        -- rewrite (tail_steps_eq c e sc Hp).
+           apply (entry_file_v2 c d e sc ess st names L ln st1 ln2 st' Hp Ht Hb Hsub Hd E0 E1 E2 E3).
+        -- replace (2 + tr_tail_steps digest zcomp c e sc)%nat with (steps_v1 e sc)
+             by (unfold tr_tail_steps, steps_v1; rewrite Hp, dbl_spec; lia).
+           apply (entry_file_v1 c d e sc ess st names L ln st1 ln2 st' Hp Ht Hb Hsub Hd E0 E1 E2 E3).
+Qed.
 
 Lemma run_entries_prefix c d rest : table_ok c -> forall ess st names L per all stf,
-  Forall (fun es => bytes_ok (te_data (fst es)) = true) ess ->
-  tr_spec c d (map fst ess) st names = Some (per, all, stf) ->
-  runf (entries_steps c ess) c d (between c (ess ++ rest) st names L) = between c rest stf all (L ++ all_log c ess per).
+  Forall (fun es => item_ok c (fst es)) ess ->
+  spec c d ess st names = Some (per, all, stf) ->
+  runf (esteps c d ess st) c d (between c (ess ++ rest) st names L) = between c rest stf all (L ++ all_log c d ess st per).
 Proof.
   intros Ht. induction ess as [|[e sc] ess IH]; intros st names L per all stf Hb Hs.
-  - cbn in Hs. inversion Hs; subst. cbn [entries_steps fold_right tr_run_from all_log app]. rewrite app_nil_r. reflexivity.
-  - cbn [map fst tr_spec] in Hs. destruct (tr_spec_entry c d e st) as [[ln st1]|] eqn:Ee; [|discriminate].
-    destruct (tr_spec c d (map fst ess) st1 (tr_add_name names ln)) as [[[per' all'] stf']|] eqn:Er; [|discriminate].
+  - cbn in Hs. inversion Hs; subst. cbn [esteps tr_run_from all_log app]. rewrite app_nil_r. reflexivity.
+  - cbn [tr_spec] in Hs. destruct (spec_entry c d e sc st) as [[ln st1]|] eqn:Ee; [|discriminate].
+    destruct (spec c d ess st1 (tr_add_name names ln)) as [[[per' all'] stf']|] eqn:Er; [|discriminate].
     inversion Hs; subst. inversion Hb as [|? ? Hb1 Hb2]; subst. cbn [fst] in Hb1.
-    unfold entries_steps. cbn [fold_right]. fold (entries_steps c ess). rewrite run_add.
-    cbn [all_log app]. unfold entry_log. cbn [fst snd]. rewrite entry_steps_eq.
-    destruct (te_isdir e) eqn:Hd.
-    + rewrite (entry_dir c d e sc (ess ++ rest) st names L ln st1 Hd Ee).
-      rewrite (IH _ _ _ _ _ _ Hb2 Er), <- app_assoc. reflexivity.
-    + destruct (tr_pipeline c) eqn:Hp.
-      * rewrite (entry_file_v2 c d e sc (ess ++ rest) st names L ln st1 Hp Ht Hb1 Hd Ee).
-        rewrite (IH _ _ _ _ _ _ Hb2 Er), <- app_assoc. reflexivity.
-      * rewrite (entry_file_v1 c d e sc (ess ++ rest) st names L ln st1 Hp Ht Hb1 Hd Ee).
-        rewrite (IH _ _ _ _ _ _ Hb2 Er), <- app_assoc. reflexivity.
+    cbn [esteps all_log app]. rewrite Ee, run_add.
+    rewrite (entry_run c d e sc (ess ++ rest) st names L ln st1 Ht Hb1 Ee).
+    rewrite (IH _ _ _ _ _ _ Hb2 Er), <- app_assoc. reflexivity.
 Qed.
 
 Lemma run_entries c d : table_ok c -> forall ess st names L per all stf,
-  Forall (fun es => bytes_ok (te_data (fst es)) = true) ess ->
-  tr_spec c d (map fst ess) st names = Some (per, all, stf) ->
-  runf (entries_steps c ess) c d (between c ess st names L) = between c [] stf all (L ++ all_log c ess per).
+  Forall (fun es => item_ok c (fst es)) ess ->
+  spec c d ess st names = Some (per, all, stf) ->
+  runf (esteps c d ess st) c d (between c ess st names L) = between c [] stf all (L ++ all_log c d ess st per).
 Proof.
   intros Ht ess st names L per all stf Hb Hs.
   pose proof (run_entries_prefix c d [] Ht ess st names L per all stf Hb Hs) as Hr. rewrite app_nil_r in Hr. exact Hr.
 Qed.
 
 (* ---------- the whole run ---------- *)
-Definition full_log (c : tr_cfg) (ess : list (tr_entry * tr_sched)) (per all : list name) : list (bool * msg) :=
+Definition full_log (c : tr_cfg) (d : path) (ess : list (tr_entry * tr_sched)) (f0 : fs) (per all : list name) : list (bool * msg) :=
   [(true, TrNum digest (N.of_nat (length ess))); (false, TrSuccInt digest (N.of_nat (length ess)))]
-  ++ all_log c ess per ++ [(tc_upload c, TrExit digest all)].
+  ++ all_log c d ess (init_state f0) per ++ [(tc_upload c, TrExit digest all)].
 
-Lemma fuel_eq c ess : tr_fuel digest zcomp c ess = (2 + (entries_steps c ess + 1))%nat.
+Notation fuel_go := (tr_fuel_go digest zcomp hx ahdr aparse).
+Notation fuel_items := (tr_fuel_items digest zcomp hx ahdr aparse).
+
+Lemma fuel_ok c d : forall ess st names per all stf, spec c d ess st names = Some (per, all, stf) ->
+  fuel_go c d ess st = (esteps c d ess st + 1)%nat.
 Proof.
-  unfold tr_fuel, entries_steps. f_equal. induction ess as [|es ess IH]; [reflexivity|]. cbn [fold_right]. rewrite IH. lia.
+  induction ess as [|[e sc] ess IH]; intros st names per all stf Hs; [reflexivity|].
+  cbn [tr_spec] in Hs. cbn [tr_fuel_go esteps]. destruct (spec_entry c d e sc st) as [[ln st1]|]; [|discriminate].
+  destruct (spec c d ess st1 (tr_add_name names ln)) as [[[per' all'] stf']|] eqn:Er; [|discriminate].
+  rewrite (IH _ _ _ _ _ Er). lia.
 Qed.
 
 Lemma init_two_steps c d ess f0 :
@@ -715,83 +1193,98 @@ Qed.
 Lemma final_stuck c d stf all log : stepc c d (final_conf c stf all log) = None.
 Proof. reflexivity. Qed.
 
+Notation run_items := (tr_run_items digest H deq zcomp zdecomp zl unzl hx ahdr aparse).
+
 Theorem run_complete c d ess f0 per all stf : table_ok c ->
-  Forall (fun es => bytes_ok (te_data (fst es)) = true) ess ->
-  tr_spec c d (map fst ess) (init_state f0) [] = Some (per, all, stf) ->
-  forall fuel, (tr_fuel digest zcomp c ess <= fuel)%nat ->
-  tr_run digest H deq zcomp zdecomp zl unzl fuel c d ess f0 = final_conf c stf all (full_log c ess per all).
+  Forall (fun es => item_ok c (fst es)) ess ->
+  spec c d ess (init_state f0) [] = Some (per, all, stf) ->
+  forall fuel, (fuel_items c d ess f0 <= fuel)%nat ->
+  run_items fuel c d ess f0 = final_conf c stf all (full_log c d ess f0 per all).
 Proof.
-  intros Ht Hb Hs fuel Hf. unfold tr_run.
-  replace fuel with (tr_fuel digest zcomp c ess + (fuel - tr_fuel digest zcomp c ess))%nat by lia.
-  rewrite run_add, fuel_eq, run_add, init_two_steps, run_add, (run_entries c d Ht ess _ _ _ per all stf Hb Hs), last_step.
+  intros Ht Hb Hs fuel Hf. unfold tr_run_items. unfold tr_fuel_items in Hf. rewrite (fuel_ok c d ess _ _ _ _ _ Hs) in Hf.
+  replace fuel with (2 + (esteps c d ess (init_state f0) + (1 + (fuel - 3 - esteps c d ess (init_state f0)))))%nat by lia.
+  rewrite run_add, init_two_steps, run_add, (run_entries c d Ht ess _ _ _ per all stf Hb Hs), run_add, last_step.
   rewrite run_stuck by apply final_stuck. unfold full_log. norm_app. reflexivity.
 Qed.
 
-(* ---------- the receiver refuses an entry (or an unmodelled exchange would start) ---------- *)
+(* ---------- the receiver refuses an entry, or the resume exchange does not complete ---------- *)
 Lemma entry_fail c d e sc ess st names L :
-  (te_isdir e = true -> tr_json c = true) -> tr_spec_entry c d e st = None ->
-  let cf := runf 2 c d (between c ((e, sc) :: ess) st names L) in
+  item_ok c e -> (te_isdir e = true -> tr_json c = true) -> spec_entry c d e sc st = None ->
+  let cf := runf (tr_entry_steps digest zcomp hx ahdr c d e sc st) c d (between c ((e, sc) :: ess) st names L) in
   stepc c d cf = None /\ tr_sender_ok digest cf = false /\ tr_receiver_ok digest cf = false.
 Proof.
-  intros Hdj Hs. rewrite between_cons.
-  rewrite (run_S _ _ _ _ _ (step_recv' _ _ _ _ _ _ _ _)), rcv_name.
-  unfold tr_spec_entry in Hs.
+  intros Hok Hdj Hs.
   assert (E0 : te_isdir e && negb (tr_json c) = false).
   { destruct (te_isdir e); [rewrite (Hdj eq_refl); reflexivity | reflexivity]. }
-  rewrite E0 in Hs. unfold tr_r_name. cbn [rs_st rs_names rs_phase rs_left rs_sched].
+  unfold tr_entry_steps. pose proof Hs as Hs0. unfold tr_spec_entry in Hs. rewrite E0 in Hs.
   destruct (tr_create c d (tr_payload c e) [] st) as [[ln|] st1] eqn:E1.
-  - rewrite payload_archive, (payload_isdir _ _ E0).
-    destruct (te_isdir e) eqn:Hd; [discriminate|].
-    destruct (tr_json_names c && (0 <? tr_target_size d ln (tr_payload c e) st1)) eqn:E2.
-    + (* the resume exchange would start *)
-      apply andb_true_iff in E2 as [Ej E2]. unfold tr_r_phase. cbn [fst snd app rs_st rs_names rs_phase rs_left rs_sched].
-      fold (name_reply c ln (tr_target_size d ln (tr_payload c e) st1)).
-      rewrite (run_one _ _ _ _ (step_send' _ _ _ _ _ _ _)), snd_name. unfold tr_s_named. rewrite Hd, Ej, E2.
-      cbn [fst snd]. repeat split.
-    + pose proof (tr_create_indep c d (tr_payload c e) [] (te_data e) st) as Hi. rewrite E1 in Hi. cbn [fst] in Hi.
-      destruct (tr_create c d (tr_payload c e) (te_data e) st) as [[l2|] st2]; [discriminate | discriminate].
-  - unfold tr_r_fail. cbn [fst snd app rs_st rs_names rs_phase rs_left rs_sched].
+  - destruct (tr_has_subs e) eqn:Hsub.
+    + (* an archive in order is never refused *)
+      exfalso. destruct (arch_item c e sc Hok Hsub) as (f & t & Ef & _ & _ & _ & Et). rewrite Ef, Et in Hs. discriminate.
+    + rewrite andb_false_r. destruct (te_isdir e) eqn:Hd; [discriminate|].
+      assert (E0' : te_isdir e && negb (tr_json c) = false) by (rewrite Hd; exact E0). clear E0. rename E0' into E0.
+      destruct (tr_json_names c && (0 <? tr_target_size d ln (tr_payload c e) st1)) eqn:E2.
+      * apply andb_true_iff in E2 as [Hj Hts].
+        destruct (target_size_pos d ln (tr_payload c e) st1 Hts) as [Hold _].
+        pose proof (resume_run_cases hx c e sc _ Hj Hold) as Hc. cbv zeta in Hc.
+        destruct (tr_resume_run hx c e sc (tr_old_content st1 (tr_leaf d ln (tr_payload c e)))) as [o|hs acks| | |] eqn:Er;
+          try (destruct (_ || _) in Hc; discriminate Hc).
+        -- discriminate.
+        -- replace (2 + (length (tr_resume_pre digest c e) + length hs + length acks))%nat
+             with (1 + (1 + (length (tr_resume_pre digest c e) + (length hs + length acks))))%nat by lia.
+           apply (entry_blocked c d e sc ess st names L ln st1 hs acks Hj Hsub Hd E0 E1 Hts Er).
+      * exfalso. pose proof (tr_create_indep c d (tr_payload c e) [] (te_data e) st) as Hi. rewrite E1 in Hi. cbn [fst] in Hi.
+        destruct (tr_create c d (tr_payload c e) (te_data e) st) as [[l2|] st2]; discriminate.
+  - cbv zeta. rewrite between_cons. cbn [plus].
+    rewrite (run_S _ _ _ _ _ (step_recv' _ _ _ _ _ _ _ _)), rcv_name. unfold tr_r_name. cbn [rs_st]. rewrite E1.
+    unfold tr_r_fail. cbn [fst snd app rs_st rs_names rs_phase rs_left rs_sched rs_open].
     rewrite (run_one _ _ _ _ (step_send' _ _ _ _ _ _ _)). cbn [tr_sender ss_phase fst snd]. repeat split.
 Qed.
 
-Lemma spec_none_split c d : forall (ess : list (tr_entry * tr_sched)) st names, tr_spec c d (map fst ess) st names = None ->
+Lemma spec_none_split c d : forall (ess : list (tr_entry * tr_sched)) st names, spec c d ess st names = None ->
   exists pre e sc post per all st1, ess = pre ++ (e, sc) :: post /\
-    tr_spec c d (map fst pre) st names = Some (per, all, st1) /\ tr_spec_entry c d e st1 = None.
+    spec c d pre st names = Some (per, all, st1) /\ spec_entry c d e sc st1 = None.
 Proof.
   induction ess as [|[e sc] ess IH]; intros st names Hs; [discriminate|].
-  cbn [map fst tr_spec] in Hs. destruct (tr_spec_entry c d e st) as [[ln st1]|] eqn:Ee.
-  - destruct (tr_spec c d (map fst ess) st1 (tr_add_name names ln)) as [[[per' all'] stf']|] eqn:Er; [discriminate|].
+  cbn [tr_spec] in Hs. destruct (spec_entry c d e sc st) as [[ln st1]|] eqn:Ee.
+  - destruct (spec c d ess st1 (tr_add_name names ln)) as [[[per' all'] stf']|] eqn:Er; [discriminate|].
     destruct (IH _ _ Er) as (pre & e2 & sc2 & post & per & all & st2 & -> & Hp & He).
     exists ((e, sc) :: pre), e2, sc2, post, (ln :: per), all, st2. split; [reflexivity|]. split; [|exact He].
-    cbn [map fst tr_spec]. rewrite Ee, Hp. reflexivity.
+    cbn [tr_spec]. rewrite Ee, Hp. reflexivity.
   - exists [], e, sc, ess, [], names, st. repeat split. exact Ee.
 Qed.
 
-Lemma entry_steps_ge2 c es : (2 <= tr_entry_steps digest zcomp c es)%nat.
-Proof. destruct es as [e sc]. unfold tr_entry_steps. destruct (te_isdir e); [lia|]. destruct (tr_pipeline c); lia. Qed.
-
-Lemma entries_steps_app c a b : entries_steps c (a ++ b) = (entries_steps c a + entries_steps c b)%nat.
-Proof. unfold entries_steps. induction a as [|x a IH]; [reflexivity|]. cbn [app fold_right]. rewrite IH. lia. Qed.
+Lemma fuel_fail c d : forall pre e sc post st names per all st1,
+  spec c d pre st names = Some (per, all, st1) -> spec_entry c d e sc st1 = None ->
+  fuel_go c d (pre ++ (e, sc) :: post) st = (esteps c d pre st + tr_entry_steps digest zcomp hx ahdr c d e sc st1)%nat.
+Proof.
+  induction pre as [|[e0 sc0] pre IH]; intros e sc post st names per all st1 Hp He.
+  - cbn in Hp. inversion Hp; subst. cbn [app tr_fuel_go esteps]. rewrite He. lia.
+  - cbn [tr_spec] in Hp. cbn [app tr_fuel_go esteps]. destruct (spec_entry c d e0 sc0 st) as [[ln st2]|]; [|discriminate].
+    destruct (spec c d pre st2 (tr_add_name names ln)) as [[[per' all'] stf']|] eqn:Er; [|discriminate].
+    inversion Hp; subst. rewrite (IH e sc post st2 _ _ _ _ Er He). lia.
+Qed.
 
 Theorem run_incomplete c d ess f0 : table_ok c ->
-  Forall (fun es => bytes_ok (te_data (fst es)) = true) ess ->
+  Forall (fun es => item_ok c (fst es)) ess ->
   Forall (fun es => te_isdir (fst es) = true -> tr_json c = true) ess ->
-  tr_spec c d (map fst ess) (init_state f0) [] = None ->
-  forall fuel, (tr_fuel digest zcomp c ess <= fuel)%nat ->
-  tr_sender_ok digest (tr_run digest H deq zcomp zdecomp zl unzl fuel c d ess f0) = false /\
-  tr_receiver_ok digest (tr_run digest H deq zcomp zdecomp zl unzl fuel c d ess f0) = false.
+  spec c d ess (init_state f0) [] = None ->
+  forall fuel, (fuel_items c d ess f0 <= fuel)%nat ->
+  tr_sender_ok digest (run_items fuel c d ess f0) = false /\
+  tr_receiver_ok digest (run_items fuel c d ess f0) = false.
 Proof.
   intros Ht Hb Hdj Hs fuel Hf.
   destruct (spec_none_split c d ess _ _ Hs) as (pre & e & sc & post & per & all & st1 & -> & Hp & He).
-  apply Forall_app in Hb as [Hb1 _]. apply Forall_app in Hdj as [_ Hdj]. inversion Hdj as [|? ? Hdj1 _]; subst. cbn [fst] in Hdj1.
-  rewrite fuel_eq, entries_steps_app in Hf. cbn [entries_steps fold_right] in Hf. fold (entries_steps c post) in Hf.
-  pose proof (entry_steps_ge2 c (e, sc)) as H2.
-  unfold tr_run.
-  replace fuel with (2 + (entries_steps c pre + (2 + (fuel - 4 - entries_steps c pre))))%nat by lia.
+  apply Forall_app in Hb as [Hb1 Hb2]. inversion Hb2 as [|? ? Hbe _]; subst. cbn [fst] in Hbe.
+  apply Forall_app in Hdj as [_ Hdj]. inversion Hdj as [|? ? Hdj1 _]; subst. cbn [fst] in Hdj1.
+  unfold tr_fuel_items in Hf. rewrite (fuel_fail c d pre e sc post _ _ _ _ _ Hp He) in Hf.
+  unfold tr_run_items.
+  set (n1 := esteps c d pre (init_state f0)) in *. set (n2 := tr_entry_steps digest zcomp hx ahdr c d e sc st1) in *.
+  replace fuel with (2 + (n1 + (n2 + (fuel - 2 - n1 - n2))))%nat by lia.
   rewrite run_add, init_two_steps, run_add, (run_entries_prefix c d ((e, sc) :: post) Ht pre _ _ _ per all st1 Hb1 Hp), run_add.
   match goal with |- context [between c ((e, sc) :: post) st1 all ?L] =>
-    destruct (entry_fail c d e sc post st1 all L Hdj1 He) as (A & B & C) end.
-  rewrite run_stuck by exact A. split; assumption.
+    destruct (entry_fail c d e sc post st1 all L Hbe Hdj1 He) as (A & B & C) end.
+  fold n2 in A, B, C. rewrite run_stuck by exact A. split; assumption.
 Qed.
 
 (* ---------- the shape of the transcript ---------- *)
@@ -859,24 +1352,23 @@ Proof.
   destruct Hq as [-> | ->]; reflexivity.
 Qed.
 
-Lemma tg_file_v2 c e sc ln : tg (file_log_v2 c e sc ln) =
-  [TgName; TgSucc; TgSize; TgSucc] ++ tg (tag_out true (snd (compress c e sc)))
+(* the data of a file: echo, [COMP], frames, finish flag, acks, final acks, MD5 - then the digest reply *)
+Lemma tg_tail c e sc : tg (tail_log c e sc) =
+  [TgSucc] ++ tg (tag_out true (snd (compress c e sc)))
   ++ map (fun _ => TgData) (frames c e sc) ++ [TgFinish]
   ++ map (fun _ => TgAck) (frames c e sc) ++ [TgAck]
-  ++ map (fun _ => TgSucc) (prefinal_of e sc) ++ [TgSucc] ++ [TgMd5; TgSucc].
+  ++ map (fun _ => TgSucc) (prefinal_of e sc) ++ [TgSucc] ++ [TgMd5].
 Proof.
-  unfold file_log_v2. cbv zeta. rewrite !tg_app, !tag_out_app, !tg_app.
+  unfold tail_log. cbv zeta. rewrite !tg_app, !tag_out_app, !tg_app.
   rewrite (tg_frames true (frames c e sc) (frames_nonempty _ _ _)), tg_acks, tg_ints.
-  cbn [tg map snd tr_tag_of tr_tag_out]. rewrite tag_reply. unfold finish_ack. cbn [tr_tag_of].
+  cbn [tg map snd tr_tag_of tr_tag_out]. unfold finish_ack. cbn [tr_tag_of].
   repeat rewrite <- app_assoc. reflexivity.
 Qed.
 
-Lemma acc_file_v2 c e sc ln q rest : tr_pipeline c = true -> between_q q ->
-  tr_accepts_from (tr_pipeline c) q (tg (file_log_v2 c e sc ln) ++ rest) = tr_accepts_from (tr_pipeline c) Q2 rest.
+Lemma acc_tail c e sc rest :
+  tr_accepts_from true Q5 (tg (tail_log c e sc) ++ TgSucc :: rest) = tr_accepts_from true Q2 rest.
 Proof.
-  intros Hp Hq. rewrite Hp, tg_file_v2. repeat rewrite <- app_assoc. cbn [app tr_accepts_from].
-  assert (H1 : tr_delta true q TgName = Some Q3) by (destruct Hq as [-> | ->]; reflexivity).
-  rewrite H1. cbn [tr_delta].
+  rewrite tg_tail. repeat rewrite <- app_assoc. cbn [app tr_accepts_from tr_delta].
   assert (Hc : exists q', (q' = Q6 \/ q' = Q7) /\ forall r,
      tr_accepts_from true Q6 (tg (tag_out true (snd (compress c e sc))) ++ r) = tr_accepts_from true q' r).
   { unfold tr_compress. destruct (tr_is_compress_fixed c (te_size e)) as [[|] cp]; cbn [snd].
@@ -884,6 +1376,68 @@ Proof.
     - exists Q7. split; [right; reflexivity | reflexivity]. }
   destruct Hc as (q' & Hq' & Hc). rewrite Hc, (acc_datas _ _ _ Hq'), acc_ackl.
   cbn [tr_accepts_from tr_delta]. rewrite acc_succs by (left; reflexivity). reflexivity.
+Qed.
+
+Lemma acc_file_v2 c e sc ln q rest : tr_pipeline c = true -> between_q q ->
+  tr_accepts_from (tr_pipeline c) q (tg (file_log_v2 c e sc ln) ++ rest) = tr_accepts_from (tr_pipeline c) Q2 rest.
+Proof.
+  intros Hp Hq. rewrite Hp. unfold file_log_v2. rewrite !tg_app. repeat rewrite <- app_assoc.
+  cbn [tg map snd tr_tag_of app tr_accepts_from]. rewrite tag_reply.
+  assert (H1 : tr_delta true q TgName = Some Q3) by (destruct Hq as [-> | ->]; reflexivity).
+  rewrite H1. cbn [tr_delta]. fold (tg (tail_log c e sc)). apply acc_tail.
+Qed.
+
+Lemma acc_arch c e sc ln f q rest : tr_pipeline c = true -> between_q q ->
+  tr_accepts_from (tr_pipeline c) q (tg (arch_log c e sc ln f) ++ rest) = tr_accepts_from (tr_pipeline c) Q2 rest.
+Proof.
+  intros Hp Hq. rewrite Hp. unfold arch_log. rewrite !tg_app. repeat rewrite <- app_assoc.
+  cbn [tg map snd tr_tag_of app tr_accepts_from]. rewrite tag_reply.
+  assert (H1 : tr_delta true q TgName = Some Q3) by (destruct Hq as [-> | ->]; reflexivity).
+  rewrite H1. cbn [tr_delta]. fold (tg (tail_log c f sc)). apply acc_tail.
+Qed.
+
+(* the resume exchange: [SIZE] HASH* Over hash-ack* *)
+Lemma tg_hashes : forall hl : list Resume.hmsg, (forall m, In m hl -> m <> Resume.Over) ->
+  tg (tag_out true (map hmsg_of hl)) = map (fun _ => TgHash) hl.
+Proof.
+  induction hl as [|m hl IH]; intro Hall; [reflexivity|]. cbn [map tr_tag_out tg snd].
+  destruct m as [s h|]; [|exfalso; apply (Hall Resume.Over); [left; reflexivity | reflexivity]].
+  cbn [tr_hmsg tr_tag_of]. f_equal. apply IH. intros m Hm. apply Hall. right. exact Hm.
+Qed.
+
+Lemma tg_hacks : forall acks : list Resume.ack, tg (tag_out false (map hack_of acks)) = map (fun _ => TgHack) acks.
+Proof. induction acks as [|a acks IH]; [reflexivity|]. cbn [map tr_tag_out tg snd tr_hack tr_tag_of]. f_equal. exact IH. Qed.
+
+Lemma acc_hashes {A} : forall (l : list A) q rest, q = Q4 \/ q = Q5 \/ q = QH ->
+  tr_accepts_from true q (map (fun _ => TgHash) l ++ TgOver :: rest) = tr_accepts_from true QO rest.
+Proof.
+  induction l as [|x l IH]; intros q rest Hq; cbn [map app tr_accepts_from].
+  - destruct Hq as [-> | [-> | ->]]; reflexivity.
+  - assert (Hd : tr_delta true q TgHash = Some QH) by (destruct Hq as [-> | [-> | ->]]; reflexivity).
+    rewrite Hd. apply IH. right; right; reflexivity.
+Qed.
+
+Lemma acc_hacks {A} : forall (l : list A) rest,
+  tr_accepts_from true QO (map (fun _ => TgHack) l ++ rest) = tr_accepts_from true QO rest.
+Proof. induction l as [|x l IH]; intro rest; [reflexivity|]. cbn [map app tr_accepts_from tr_delta]. apply IH. Qed.
+
+Lemma acc_resume c e sc ln tsize o hl q rest : tr_pipeline c = true -> between_q q ->
+  Resume.o_hashes o = hl ++ [Resume.Over] -> (forall m, In m hl -> m <> Resume.Over) ->
+  tr_accepts_from (tr_pipeline c) q (tg (resume_log c e sc ln tsize o) ++ rest) = tr_accepts_from (tr_pipeline c) Q2 rest.
+Proof.
+  intros Hp Hq Eh Hall. rewrite Hp. unfold resume_log. cbv zeta. rewrite Eh, map_app, !tag_out_app, !tg_app.
+  rewrite (tg_hashes hl Hall), tg_hacks. repeat rewrite <- app_assoc.
+  cbn [tg map snd tr_tag_of tr_tag_out tr_hmsg app tr_accepts_from]. rewrite tag_reply.
+  assert (H1 : tr_delta true q TgName = Some Q3) by (destruct Hq as [-> | ->]; reflexivity).
+  rewrite H1. cbn [tr_delta].
+  assert (Hpre : exists qa, (qa = Q4 \/ qa = Q5 \/ qa = QH) /\ forall r,
+     tr_accepts_from true Q4 (map (fun dm => tr_tag_of digest (snd dm)) (map (fun m : msg => (true, m)) (tr_resume_pre digest c e)) ++ r) =
+     tr_accepts_from true qa r).
+  { unfold tr_resume_pre. destruct (tc_proto c <? Consts.tr_proto_resume_nosize).
+    - exists Q5. split; [right; left; reflexivity | reflexivity].
+    - exists Q4. split; [left; reflexivity | reflexivity]. }
+  destruct Hpre as (qa & Hqa & Hpre). rewrite Hpre, (acc_hashes _ _ _ Hqa), acc_hacks.
+  cbn [tr_accepts_from tr_delta]. fold (tg (tail_log c (tr_rem_entry e (Resume.o_msend o)) sc)). apply acc_tail.
 Qed.
 
 (* legacy exchange: DATA SUCC DATA SUCC ... MD5 *)
@@ -909,26 +1463,51 @@ Proof.
     destruct (tr_v1_payload zl c ch); cbn [tr_delta]; apply acc_v1_log.
 Qed.
 
-Lemma acc_all c : forall ess per q rest, between_q q ->
+Lemma acc_entry c d e sc st ln q rest : between_q q ->
   exists q', between_q q' /\
-    tr_accepts_from (tr_pipeline c) q (tg (all_log c ess per) ++ rest) = tr_accepts_from (tr_pipeline c) q' rest.
+    tr_accepts_from (tr_pipeline c) q (tg (entry_log c d e sc st ln) ++ rest) = tr_accepts_from (tr_pipeline c) q' rest.
 Proof.
-  induction ess as [|[e sc] ess IH]; intros per q rest Hq; [exists q; split; [exact Hq | reflexivity]|].
-  destruct per as [|ln per]; [exists q; split; [exact Hq | reflexivity]|].
-  cbn [all_log]. rewrite tg_app, <- app_assoc. unfold entry_log. cbn [fst snd].
-  destruct (te_isdir e).
-  - rewrite (acc_dir c e ln q _ Hq). apply IH. right; reflexivity.
-  - destruct (tr_pipeline c) eqn:Hp.
-    + pose proof (fun r => acc_file_v2 c e sc ln q r Hp Hq) as Hx. rewrite Hp in Hx. rewrite Hx. apply IH. left; reflexivity.
-    + pose proof (fun r => acc_file_v1 c e sc ln q r Hp Hq) as Hx. rewrite Hp in Hx. rewrite Hx. apply IH. left; reflexivity.
+  intro Hq. unfold entry_log.
+  assert (Hsame : exists q', between_q q' /\ tr_accepts_from (tr_pipeline c) q (tg [] ++ rest) = tr_accepts_from (tr_pipeline c) q' rest)
+    by (exists q; split; [exact Hq | reflexivity]).
+  destruct (tr_create c d (tr_payload c e) [] st) as [[l1|] st1]; [|exact Hsame].
+  destruct (tr_json_names c && tr_has_subs e) eqn:Hsub.
+  - apply andb_true_iff in Hsub as [Hj _]. pose proof (pipeline_of_json_names c Hj) as Hp.
+    destruct (tr_arch_entry ahdr e sc) as [f|]; [|exact Hsame].
+    exists Q2. split; [left; reflexivity|]. apply (acc_arch c e sc ln f q rest Hp Hq).
+  - destruct (te_isdir e).
+    + exists Q4. split; [right; reflexivity|]. apply (acc_dir c e ln q rest Hq).
+    + destruct (tr_json_names c && (0 <? tr_target_size d ln (tr_payload c e) st1)) eqn:E2.
+      * apply andb_true_iff in E2 as [Hj Hts]. pose proof (pipeline_of_json_names c Hj) as Hp.
+        destruct (target_size_pos d ln (tr_payload c e) st1 Hts) as [Hold _].
+        destruct (tr_resume_run hx c e sc (tr_old_content st1 (tr_leaf d ln (tr_payload c e)))) as [o| | | |] eqn:Er; try exact Hsame.
+        destruct (resume_run_inv hx c e sc _ o Hj Hold Er) as (hs & rst & ms & Hsend & _ & _ & Ho).
+        destruct (send_hashes_shape B hx _ _ _ _ _ _ _ Hsend) as (hl & Ehs & Hall).
+        exists Q2. split; [left; reflexivity|].
+        apply (acc_resume c e sc ln _ o hl q rest Hp Hq); [rewrite Ho; cbn [Resume.o_hashes]; exact Ehs | exact Hall].
+      * destruct (tr_pipeline c) eqn:Hp.
+        -- exists Q2. split; [left; reflexivity|]. pose proof (acc_file_v2 c e sc ln q rest Hp Hq) as Hx. rewrite Hp in Hx. exact Hx.
+        -- exists Q2. split; [left; reflexivity|]. pose proof (acc_file_v1 c e sc ln q rest Hp Hq) as Hx. rewrite Hp in Hx. exact Hx.
 Qed.
 
-Theorem shape_ok c ess per all : tr_shape_ok digest (tr_pipeline c) (full_log c ess per all) = true.
+Lemma acc_all c d : forall ess st per q rest, between_q q ->
+  exists q', between_q q' /\
+    tr_accepts_from (tr_pipeline c) q (tg (all_log c d ess st per) ++ rest) = tr_accepts_from (tr_pipeline c) q' rest.
+Proof.
+  induction ess as [|[e sc] ess IH]; intros st per q rest Hq; [exists q; split; [exact Hq | reflexivity]|].
+  destruct per as [|ln per]; [exists q; split; [exact Hq | reflexivity]|].
+  cbn [all_log]. rewrite tg_app, <- app_assoc.
+  destruct (acc_entry c d e sc st ln q (tg (match spec_entry c d e sc st with Some (_, st') => all_log c d ess st' per | None => [] end) ++ rest) Hq)
+    as (q1 & Hq1 & ->).
+  destruct (spec_entry c d e sc st) as [[l1 st1]|]; [apply IH, Hq1 | exists q1; split; [exact Hq1 | reflexivity]].
+Qed.
+
+Theorem shape_ok c d ess f0 per all : tr_shape_ok digest (tr_pipeline c) (full_log c d ess f0 per all) = true.
 Proof.
   unfold tr_shape_ok, full_log. fold (tg ([(true, TrNum digest (N.of_nat (length ess))); (false, TrSuccInt digest (N.of_nat (length ess)))]
-    ++ all_log c ess per ++ [(tc_upload c, TrExit digest all)])).
-  rewrite tg_app. cbn [tg map snd tr_tag_of app tr_accepts_from tr_delta]. fold (tg (all_log c ess per ++ [(tc_upload c, TrExit digest all)])).
-  rewrite tg_app. destruct (acc_all c ess per Q2 (tg [(tc_upload c, TrExit digest all)]) (or_introl eq_refl)) as (q' & Hq' & ->).
+    ++ all_log c d ess (init_state f0) per ++ [(tc_upload c, TrExit digest all)])).
+  rewrite tg_app. cbn [tg map snd tr_tag_of app tr_accepts_from tr_delta]. fold (tg (all_log c d ess (init_state f0) per ++ [(tc_upload c, TrExit digest all)])).
+  rewrite tg_app. destruct (acc_all c d ess (init_state f0) per Q2 (tg [(tc_upload c, TrExit digest all)]) (or_introl eq_refl)) as (q' & Hq' & ->).
   destruct Hq' as [-> | ->]; reflexivity.
 Qed.
 
@@ -936,19 +1515,30 @@ Qed.
 Lemma nodup_fold_add per : forall names, NoDup names -> NoDup (fold_left tr_add_name per names).
 Proof. induction per as [|n per IH]; intros names Hn; [exact Hn|]. cbn [fold_left]. apply IH, nodup_add_name, Hn. Qed.
 
-Theorem transfer_ok c d ess f0 per all stf : table_ok c ->
-  Forall (fun es => bytes_ok (te_data (fst es)) = true) ess ->
-  stat f0 d = SFound Dir -> tr_wf c (map fst ess) ->
-  tr_spec c d (map fst ess) (init_state f0) [] = Some (per, all, stf) ->
-  forall fuel, (tr_fuel digest zcomp c ess <= fuel)%nat ->
-  tr_outcome_ok c d f0 ess (tr_run digest H deq zcomp zdecomp zl unzl fuel c d ess f0).
+Lemma items_ok c items : tr_bytes_ok items -> tr_wf c (map fst items) -> tr_hdrs_ok ahdr aparse (map fst items) ->
+  Forall (fun es => item_ok c (fst es)) items.
 Proof.
-  intros Ht Hb Hd Hwf Hs fuel Hf. rewrite (run_complete c d ess f0 per all stf Ht Hb Hs fuel Hf).
-  destruct (spec_tree c d f0 (map fst ess) per all stf Hd Hwf Hs) as (A1 & A2 & A3 & A4 & A5 & A6).
+  intros Hb (_ & _ & Hw & _) Hh. unfold tr_bytes_ok in Hb. rewrite Forall_forall in Hb. apply Forall_forall. intros [e sc] Hin. cbn [fst].
+  assert (He : In e (map fst items)) by (apply in_map_iff; exists (e, sc); auto).
+  split; [apply (Hb (e, sc) Hin)|]. split; [apply Hw, He | intros s Hs; apply (Hh e s He Hs)].
+Qed.
+
+Notation safe := (tr_resume_safe hx ahdr aparse).
+
+Theorem transfer_ok c d items f0 per all stf : table_ok c -> tr_bytes_ok items ->
+  stat f0 d = SFound Dir -> tr_wf c (map fst items) -> tr_hdrs_ok ahdr aparse (map fst items) ->
+  safe c d items (init_state f0) ->
+  spec c d items (init_state f0) [] = Some (per, all, stf) ->
+  forall fuel, (fuel_items c d items f0 <= fuel)%nat ->
+  tr_outcome_ok c d f0 items (run_items fuel c d items f0).
+Proof.
+  intros Ht Hb Hd Hwf Hh Hsafe Hs fuel Hf.
+  rewrite (run_complete c d items f0 per all stf Ht (items_ok c items Hb Hwf Hh) Hs fuel Hf).
+  destruct (spec_tree hx ahdr aparse c d f0 items per all stf Hd Hwf Hh Hsafe Hs) as (A1 & A2 & A3 & A4 & A5 & A6).
   unfold tr_outcome_ok, final_conf. cbn [tr_sender_ok tr_receiver_ok tr_quiet cf_s cf_r cf_s2r cf_r2s cf_log ss_phase rs_phase ss_names rs_names rs_st].
   repeat (split; [reflexivity|]). exists per, all. repeat (split; [reflexivity|]).
   split; [|split; [unfold full_log; eexists; rewrite app_assoc; reflexivity | apply shape_ok]].
-  unfold tr_tree_at. split; [exact A1|]. split.
+  unfold tr_tree_at. split; [rewrite map_length; exact A1|]. split.
   { intro ln. rewrite A2, in_fold_add. cbn. tauto. }
   split; [rewrite A2; apply nodup_fold_add; constructor|]. auto.
 Qed.
@@ -956,46 +1546,46 @@ Qed.
 Lemma quiet_stuck c d (cf : conf) : tr_quiet digest cf = true -> stepc c d cf = None.
 Proof. unfold tr_quiet, tr_step. destruct (cf_s2r digest cf); [|discriminate]. destruct (cf_r2s digest cf); [reflexivity | discriminate]. Qed.
 
-Theorem success_implies_ok c d ess f0 : table_ok c ->
-  Forall (fun es => bytes_ok (te_data (fst es)) = true) ess ->
-  Forall (fun es => te_isdir (fst es) = true -> tr_json c = true) ess ->
-  stat f0 d = SFound Dir -> tr_wf c (map fst ess) ->
-  forall fuel, (tr_fuel digest zcomp c ess <= fuel)%nat \/ tr_quiet digest (tr_run digest H deq zcomp zdecomp zl unzl fuel c d ess f0) = true ->
-  tr_sender_ok digest (tr_run digest H deq zcomp zdecomp zl unzl fuel c d ess f0) = true \/
-  tr_receiver_ok digest (tr_run digest H deq zcomp zdecomp zl unzl fuel c d ess f0) = true ->
-  tr_outcome_ok c d f0 ess (tr_run digest H deq zcomp zdecomp zl unzl fuel c d ess f0).
+Theorem success_implies_ok c d items f0 : table_ok c -> tr_bytes_ok items ->
+  Forall (fun es => te_isdir (fst es) = true -> tr_json c = true) items ->
+  stat f0 d = SFound Dir -> tr_wf c (map fst items) -> tr_hdrs_ok ahdr aparse (map fst items) ->
+  safe c d items (init_state f0) ->
+  forall fuel, (fuel_items c d items f0 <= fuel)%nat \/ tr_quiet digest (run_items fuel c d items f0) = true ->
+  tr_sender_ok digest (run_items fuel c d items f0) = true \/
+  tr_receiver_ok digest (run_items fuel c d items f0) = true ->
+  tr_outcome_ok c d f0 items (run_items fuel c d items f0).
 Proof.
-  intros Ht Hb Hdj Hd Hwf fuel Hf Hok.
+  intros Ht Hb Hdj Hd Hwf Hh Hsafe fuel Hf Hok.
   (* at rest, more fuel changes nothing: reduce to the case of enough fuel *)
-  assert (Hrun : exists fuel', (tr_fuel digest zcomp c ess <= fuel')%nat /\
-     tr_run digest H deq zcomp zdecomp zl unzl fuel' c d ess f0 = tr_run digest H deq zcomp zdecomp zl unzl fuel c d ess f0).
+  assert (Hrun : exists fuel', (fuel_items c d items f0 <= fuel')%nat /\ run_items fuel' c d items f0 = run_items fuel c d items f0).
   { destruct Hf as [Hf|Hq]; [exists fuel; split; [exact Hf | reflexivity]|].
-    exists (fuel + tr_fuel digest zcomp c ess)%nat. split; [lia|]. unfold tr_run. rewrite run_add.
+    exists (fuel + fuel_items c d items f0)%nat. split; [lia|]. unfold tr_run_items. rewrite run_add.
     apply run_stuck, quiet_stuck, Hq. }
   destruct Hrun as (fuel' & Hf' & Heq). rewrite <- Heq in Hok |- *. clear Heq.
-  destruct (tr_spec c d (map fst ess) (init_state f0) []) as [[[per all] stf]|] eqn:Hs.
-  - apply (transfer_ok c d ess f0 per all stf Ht Hb Hd Hwf Hs fuel' Hf').
-  - destruct (run_incomplete c d ess f0 Ht Hb Hdj Hs fuel' Hf') as [A B]. rewrite A, B in Hok. destruct Hok; discriminate.
+  destruct (spec c d items (init_state f0) []) as [[[per all] stf]|] eqn:Hs.
+  - apply (transfer_ok c d items f0 per all stf Ht Hb Hd Hwf Hh Hsafe Hs fuel' Hf').
+  - destruct (run_incomplete c d items f0 Ht (items_ok c items Hb Hwf Hh) Hdj Hs fuel' Hf') as [A B]. rewrite A, B in Hok. destruct Hok; discriminate.
 Qed.
 
 (* the same with the acceptance premise replaced by a condition on the inputs; then also: the names
-   are the names as sent, and nothing but the entries' own places has changed at the destination *)
-Theorem transfer_ready c d ess f0 : table_ok c ->
-  Forall (fun es => bytes_ok (te_data (fst es)) = true) ess ->
-  stat f0 d = SFound Dir -> Forall tr_comp_ok d -> tr_ready c d f0 (map fst ess) ->
-  forall fuel, (tr_fuel digest zcomp c ess <= fuel)%nat ->
-  let cf := tr_run digest H deq zcomp zdecomp zl unzl fuel c d ess f0 in
-  tr_outcome_ok c d f0 ess cf /\
-  ss_names (cf_s digest cf) = fold_left tr_add_name (map (tr_key c) (map fst ess)) [] /\
-  (forall q, q <> [] -> (forall e, In e (map fst ess) -> q <> tr_leaf_of c d e) ->
+   are the names as sent, and nothing but the entries' own places (an archive: what is below its name)
+   has changed at the destination *)
+Theorem transfer_ready c d items f0 : table_ok c -> tr_bytes_ok items ->
+  stat f0 d = SFound Dir -> Forall tr_comp_ok d -> tr_ready hx c d f0 items -> tr_hdrs_ok ahdr aparse (map fst items) ->
+  forall fuel, (fuel_items c d items f0 <= fuel)%nat ->
+  let cf := run_items fuel c d items f0 in
+  tr_outcome_ok c d f0 items cf /\
+  ss_names (cf_s digest cf) = fold_left tr_add_name (map (tr_key c) (map fst items)) [] /\
+  (forall q, q <> [] ->
+     (forall e, In e (map fst items) -> q <> tr_leaf_of c d e /\ (te_subs e <> [] -> is_prefix (tr_leaf_of c d e) q = false)) ->
      lookup (st_fs (rs_st (cf_r digest cf))) q = lookup f0 q).
 Proof.
-  intros Ht Hb Hd Hdc Hr fuel Hf. cbv zeta.
-  destruct (ready_accepts c d Hdc f0 (map fst ess) Hd Hr) as (all & stf & Hs & Hfr).
-  pose proof (ready_wf c d f0 (map fst ess) Hr) as Hwf.
-  split; [apply (transfer_ok c d ess f0 _ all stf Ht Hb Hd Hwf Hs fuel Hf)|].
-  rewrite (run_complete c d ess f0 _ all stf Ht Hb Hs fuel Hf). cbn [final_conf cf_s cf_r ss_names rs_st].
-  destruct (spec_tree c d f0 (map fst ess) _ all stf Hd Hwf Hs) as (_ & A & _). split; [exact A | exact Hfr].
+  intros Ht Hb Hd Hdc Hr Hh fuel Hf. cbv zeta.
+  destruct (ready_accepts hx ahdr aparse c d Hdc f0 items Hd Hr Hh) as (all & stf & Hs & Hsafe & Hfr).
+  pose proof (ready_wf hx c d f0 items Hr) as Hwf.
+  split; [apply (transfer_ok c d items f0 _ all stf Ht Hb Hd Hwf Hh Hsafe Hs fuel Hf)|].
+  rewrite (run_complete c d items f0 _ all stf Ht (items_ok c items Hb Hwf Hh) Hs fuel Hf). cbn [final_conf cf_s cf_r ss_names rs_st].
+  destruct (spec_tree hx ahdr aparse c d f0 items _ all stf Hd Hwf Hh Hsafe Hs) as (_ & A & _). split; [exact A | exact Hfr].
 Qed.
 
 End TransferProofs.
